@@ -1,7 +1,10 @@
-(** Lemmas about the attribute model (Attribute/Attribute.v) behind property C16. *)
-From Coq Require Import ZArith List Bool Lia ZifyBool.
-From PV Require Import Attribute.Attribute.
+(** Lemmas about the attribute model (Attribute/Attribute.v, composed with Name/Name.v) behind
+    property C16.  Part 1: the attribute store on its own — keys, counters, queue, the sweep with
+    its limit — none of which depends on how names are owned. *)
+From Coq Require Import ZArith NArith List Bool String Ascii Lia ZifyBool.
+From PV Require Import Name.Name Proofs.NameProofs Proofs.AttrNameKeyProofs Attribute.Attribute.
 Import ListNotations.
+Open Scope list_scope.
 Open Scope Z_scope.
 Ltac Zify.zify_post_hook ::= Z.div_mod_to_equations.
 
@@ -9,7 +12,7 @@ Ltac Zify.zify_post_hook ::= Z.div_mod_to_equations.
 Lemma key_eqb_eq : forall k1 k2, key_eqb k1 k2 = true <-> k1 = k2.
 Proof.
   intros [[a1 n1] v1] [[a2 n2] v2]. unfold key_eqb.
-  rewrite !andb_true_iff, !Z.eqb_eq. split.
+  rewrite !andb_true_iff, N.eqb_eq, String.eqb_eq, Z.eqb_eq. split.
   - intros [[-> ->] ->]. reflexivity.
   - intros H. inversion H. auto.
 Qed.
@@ -38,6 +41,15 @@ Proof.
     try congruence; try discriminate; auto.
 Qed.
 
+Lemma key_eq_dec : forall x y : key, {x = y} + {x <> y}.
+Proof. intros x y. destruct (key_eqb x y) eqn:E; [left; apply key_eqb_eq; exact E|right; apply key_eqb_neq; exact E]. Qed.
+
+Lemma attr_eq_dec : forall x y : attr, {x = y} + {x <> y}.
+Proof. decide equality; try apply Z.eq_dec; try apply N.eq_dec; try apply string_dec. decide equality. apply Z.eq_dec. Qed.
+
+Lemma entry_eq_dec : forall x y : entry, {x = y} + {x <> y}.
+Proof. intros x y. destruct (entry_eqb x y) eqn:E; [left; apply entry_eqb_eq; exact E|right]. intros H. apply entry_eqb_eq in H. congruence. Qed.
+
 (** * Records *)
 Lemma In_remove_key : forall k l r, In r (remove_key k l) <-> In r l /\ akey r <> k.
 Proof.
@@ -57,6 +69,11 @@ Proof.
   - inversion H as [|? ? Hnin Hnd]; subst. destruct (p x); cbn [map].
     + constructor; auto. intros Hin. apply Hnin. eapply In_map_filter; eauto.
     + auto.
+Qed.
+
+Lemma NoDup_filter : forall {A} (p : A -> bool) l, NoDup l -> NoDup (filter p l).
+Proof.
+  intros A p l H. rewrite <- (map_id (filter p l)). apply NoDup_map_filter. rewrite map_id. exact H.
 Qed.
 
 Lemma find_rec_some : forall k l r, find_rec k l = Some r -> In r l /\ akey r = k.
@@ -88,28 +105,28 @@ Proof.
   - exfalso. eapply find_rec_none; eauto.
 Qed.
 
-(** * Counting records of a (name, account) pair *)
-Definition cmatch (n a : Z) (r : attr) : bool := (a_name r =? n) && (a_acct r =? a).
+(** * Counting records of a (name key, account) pair *)
+Definition cmatch (n : string) (a : N) (r : attr) : bool := String.eqb (ank (a_name r)) n && N.eqb (a_acct r) a.
 
-Lemma count_recs_eq : forall n a l, count_recs n a l = Z.of_nat (length (filter (cmatch n a) l)).
+Lemma count_recs_eq : forall n a l, count_recs n a l = Z.of_nat (List.length (filter (cmatch n a) l)).
 Proof. reflexivity. Qed.
 
 Lemma len_filter_filter_le : forall {A} (p q : A -> bool) l,
-  (length (filter p (filter q l)) <= length (filter p l))%nat.
+  (List.length (filter p (filter q l)) <= List.length (filter p l))%nat.
 Proof.
   intros A p q l. induction l as [|x t IH]; cbn [filter]; auto.
-  destruct (q x), (p x) eqn:P; cbn [filter length]; try rewrite P; cbn [length]; lia.
+  destruct (q x), (p x) eqn:P; cbn [filter List.length]; try rewrite P; cbn [List.length]; lia.
 Qed.
 
 Lemma len_filter_filter_lt : forall {A} (p q : A -> bool) l r,
   In r l -> p r = true -> q r = false ->
-  (length (filter p (filter q l)) + 1 <= length (filter p l))%nat.
+  (List.length (filter p (filter q l)) + 1 <= List.length (filter p l))%nat.
 Proof.
   intros A p q l r. induction l as [|x t IH]; intros Hin Hp Hq; [destruct Hin|].
   destruct Hin as [->|Hin].
-  - cbn [filter]. rewrite Hq, Hp. cbn [length]. pose proof (len_filter_filter_le p q t). lia.
+  - cbn [filter]. rewrite Hq, Hp. cbn [List.length]. pose proof (len_filter_filter_le p q t). lia.
   - specialize (IH Hin Hp Hq). cbn [filter].
-    destruct (q x), (p x) eqn:P; cbn [filter length]; try rewrite P; cbn [length]; lia.
+    destruct (q x), (p x) eqn:P; cbn [filter List.length]; try rewrite P; cbn [List.length]; lia.
 Qed.
 
 Lemma count_nonneg : forall n a l, 0 <= count_recs n a l.
@@ -121,63 +138,67 @@ Proof.
   pose proof (len_filter_filter_le (cmatch n a) (fun r => negb (key_eqb (akey r) k)) l). lia.
 Qed.
 
+Lemma cmatch_self : forall r, cmatch (ank (a_name r)) (a_acct r) r = true.
+Proof. intros r. unfold cmatch. rewrite String.eqb_refl, N.eqb_refl. reflexivity. Qed.
+
 Lemma count_remove_lt : forall r l, In r l ->
-  count_recs (a_name r) (a_acct r) (remove_key (akey r) l) + 1 <= count_recs (a_name r) (a_acct r) l.
+  count_recs (ank (a_name r)) (a_acct r) (remove_key (akey r) l) + 1 <= count_recs (ank (a_name r)) (a_acct r) l.
 Proof.
   intros r l Hin. rewrite !count_recs_eq. unfold remove_key.
-  pose proof (len_filter_filter_lt (cmatch (a_name r) (a_acct r))
-                (fun x => negb (key_eqb (akey x) (akey r))) l r Hin) as H.
-  unfold cmatch in H at 1. rewrite !Z.eqb_refl, key_eqb_refl in H. specialize (H eq_refl eq_refl). lia.
+  pose proof (len_filter_filter_lt (cmatch (ank (a_name r)) (a_acct r))
+                (fun x => negb (key_eqb (akey x) (akey r))) l r Hin (cmatch_self r)) as H.
+  cbn beta in H. rewrite key_eqb_refl in H. specialize (H eq_refl). lia.
 Qed.
 
 Lemma count_cons : forall n a r l,
   count_recs n a (r :: l) = (if cmatch n a r then 1 else 0) + count_recs n a l.
 Proof.
-  intros. rewrite !count_recs_eq. cbn [filter]. destruct (cmatch n a r); cbn [length]; lia.
+  intros. rewrite !count_recs_eq. cbn [filter]. destruct (cmatch n a r); cbn [List.length]; lia.
 Qed.
 
-Lemma count_pos_in : forall r l, In r l -> 1 <= count_recs (a_name r) (a_acct r) l.
+Lemma count_pos_in : forall r l, In r l -> 1 <= count_recs (ank (a_name r)) (a_acct r) l.
 Proof.
   intros r l Hin. pose proof (count_remove_lt r l Hin).
-  pose proof (count_nonneg (a_name r) (a_acct r) (remove_key (akey r) l)). lia.
+  pose proof (count_nonneg (ank (a_name r)) (a_acct r) (remove_key (akey r) l)). lia.
 Qed.
 
 (** * Counters *)
 Lemma cnt_upd_same : forall f n a v, cnt_upd f n a v n a = v.
-Proof. intros. unfold cnt_upd. rewrite !Z.eqb_refl. reflexivity. Qed.
+Proof. intros. unfold cnt_upd. rewrite String.eqb_refl, N.eqb_refl. reflexivity. Qed.
 
 Lemma cnt_upd_other : forall f n a v n' a', (n', a') <> (n, a) -> cnt_upd f n a v n' a' = f n' a'.
 Proof.
-  intros. unfold cnt_upd. destruct ((n' =? n) && (a' =? a)) eqn:E; auto.
-  apply andb_true_iff in E. destruct E as [E1 E2]. apply Z.eqb_eq in E1, E2. subst. contradiction.
+  intros. unfold cnt_upd. destruct (String.eqb n' n && N.eqb a' a) eqn:E; auto.
+  apply andb_true_iff in E. destruct E as [E1 E2]. apply String.eqb_eq in E1. apply N.eqb_eq in E2.
+  subst. contradiction.
 Qed.
 
-Lemma cmatch_pair : forall n a r, cmatch n a r = true <-> (n, a) = (a_name r, a_acct r).
+Lemma cmatch_pair : forall n a r, cmatch n a r = true <-> (n, a) = (ank (a_name r), a_acct r).
 Proof.
-  intros. unfold cmatch. rewrite andb_true_iff, !Z.eqb_eq. split.
-  - intros [-> ->]. reflexivity.
+  intros. unfold cmatch. rewrite andb_true_iff, String.eqb_eq, N.eqb_eq. split.
+  - intros [<- <-]. reflexivity.
   - intros H. inversion H. auto.
 Qed.
 
 (* the counter after a decrement still covers the records once one record of the pair is gone *)
 Lemma cnt_dec_covers : forall f r l n a,
   (forall n a, count_recs n a l <= f n a) -> In r l ->
-  count_recs n a (remove_key (akey r) l) <= cnt_dec f (a_name r) (a_acct r) n a.
+  count_recs n a (remove_key (akey r) l) <= cnt_dec f (ank (a_name r)) (a_acct r) n a.
 Proof.
   intros f r l n a Hc Hin.
   pose proof (count_remove_lt r l Hin) as Hlt.
-  pose proof (count_nonneg (a_name r) (a_acct r) (remove_key (akey r) l)) as Hnn.
-  pose proof (Hc (a_name r) (a_acct r)) as Hr.
+  pose proof (count_nonneg (ank (a_name r)) (a_acct r) (remove_key (akey r) l)) as Hnn.
+  pose proof (Hc (ank (a_name r)) (a_acct r)) as Hr.
   unfold cnt_dec.
   destruct (cmatch n a r) eqn:M.
   - apply cmatch_pair in M. inversion M; subst n a.
-    destruct (f (a_name r) (a_acct r) <=? 0) eqn:E0; [lia|].
-    destruct (f (a_name r) (a_acct r) <=? 1) eqn:E1; rewrite cnt_upd_same; lia.
-  - assert (Hne : (n, a) <> (a_name r, a_acct r)).
+    destruct (f (ank (a_name r)) (a_acct r) <=? 0) eqn:E0; [lia|].
+    destruct (f (ank (a_name r)) (a_acct r) <=? 1) eqn:E1; rewrite cnt_upd_same; lia.
+  - assert (Hne : (n, a) <> (ank (a_name r), a_acct r)).
     { intros E. apply cmatch_pair in E. congruence. }
     pose proof (count_remove_le n a (akey r) l) as Hle. pose proof (Hc n a) as Hna.
-    destruct (f (a_name r) (a_acct r) <=? 0); [lia|].
-    destruct (f (a_name r) (a_acct r) <=? 1); rewrite cnt_upd_other by exact Hne; lia.
+    destruct (f (ank (a_name r)) (a_acct r) <=? 0); [lia|].
+    destruct (f (ank (a_name r)) (a_acct r) <=? 1); rewrite cnt_upd_other by exact Hne; lia.
 Qed.
 
 (** * Queue *)
@@ -210,23 +231,36 @@ Proof.
   apply In_q_remove. split; auto. intros E. subst. cbn [snd] in Hk. contradiction.
 Qed.
 
-(** * Invariants *)
+Lemma NoDup_q_remove : forall x q, NoDup q -> NoDup (q_remove x q).
+Proof. intros x q H. unfold q_remove. apply NoDup_filter. exact H. Qed.
+
+Lemma NoDup_q_add : forall q r, NoDup q -> NoDup (q_add q r).
+Proof.
+  intros q r H. unfold q_add. destruct (a_exp r) as [e|]; [|exact H].
+  destruct (existsb (entry_eqb (e, akey r)) q) eqn:E; [exact H|].
+  constructor; [|exact H]. intros Hin.
+  assert (existsb (entry_eqb (e, akey r)) q = true).
+  { apply existsb_exists. exists (e, akey r). split; [exact Hin|apply entry_eqb_eq; reflexivity]. }
+  congruence.
+Qed.
+
+Lemma NoDup_q_del : forall q r, NoDup q -> NoDup (q_del q r).
+Proof. intros q r H. unfold q_del. destruct (a_exp r); [apply NoDup_q_remove|]; exact H. Qed.
+
+(** * The invariants of the attribute store *)
 Record inv_core (s : state) : Prop := {
   ic_nodup : NoDup (map akey (s_recs s));
   ic_cnt : forall n a, count_recs n a (s_recs s) <= s_cnt s n a;
-  ic_queue : forall r e, In r (s_recs s) -> a_exp r = Some e -> In (e, akey r) (s_queue s) }.
+  ic_queue : forall r e, In r (s_recs s) -> a_exp r = Some e -> In (e, akey r) (s_queue s);
+  ic_qnodup : NoDup (s_queue s) }.
 
-Definition named (s : state) : Prop :=
-  forall r, In r (s_recs s) -> s_owner s (a_name r) <> None.
-
-Definition inv (s : state) : Prop := inv_core s /\ named s.
-
-Lemma inv_core_init : forall t0 accts, inv_core (init t0 accts).
+Lemma inv_core_init : forall cfg t0, inv_core (init cfg t0).
 Proof.
   intros. constructor; cbn.
   - constructor.
   - intros. lia.
   - intros r e [].
+  - constructor.
 Qed.
 
 Lemma nodup_put : forall r l, NoDup (map akey l) -> NoDup (map akey (r :: remove_key (akey r) l)).
@@ -239,7 +273,7 @@ Qed.
 
 Lemma inv_core_put : forall s r, inv_core s -> inv_core (put s r).
 Proof.
-  intros s r [Hnd Hc Hq]. constructor; cbn [put set_store s_recs s_cnt s_queue].
+  intros s r [Hnd Hc Hq Hqn]. constructor; cbn [put set_store s_recs s_cnt s_queue].
   - apply nodup_put. exact Hnd.
   - intros n a. rewrite count_cons. pose proof (count_remove_le n a (akey r) (s_recs s)) as Hle.
     pose proof (Hc n a) as Hna. unfold cnt_inc.
@@ -249,16 +283,27 @@ Proof.
   - intros x e [<-|Hin] He.
     + apply In_q_add_self. exact He.
     + apply In_remove_key in Hin. destruct Hin as [Hin _]. apply In_q_add. eauto.
+  - apply NoDup_q_add. exact Hqn.
 Qed.
 
 Lemma inv_core_del_rec : forall b s r, inv_core s -> In r (s_recs s) -> inv_core (del_rec b s r).
 Proof.
-  intros b s r [Hnd Hc Hq] Hin. constructor; cbn [del_rec set_store s_recs s_cnt s_queue].
+  intros b s r [Hnd Hc Hq Hqn] Hin. constructor; cbn [del_rec set_store s_recs s_cnt s_queue].
   - unfold remove_key. apply NoDup_map_filter. exact Hnd.
   - intros n a. apply cnt_dec_covers; auto.
   - intros x e Hx He. apply In_remove_key in Hx. destruct Hx as [Hx Hne].
     destruct b; [apply In_q_del_other|]; eauto.
+  - destruct b; [apply NoDup_q_del|]; exact Hqn.
 Qed.
+
+(** everything but the attribute store is left alone *)
+Definition same_frame (s s' : state) : Prop :=
+  s_names s' = s_names s /\ s_now s' = s_now s /\ s_maxlen s' = s_maxlen s.
+
+Lemma same_frame_refl : forall s, same_frame s s.
+Proof. intros s. repeat split. Qed.
+Lemma same_frame_trans : forall a b c, same_frame a b -> same_frame b c -> same_frame a c.
+Proof. intros a b c [H1 [H2 H3]] [H4 [H5 H6]]. repeat split; congruence. Qed.
 
 (** Deleting a list of distinct present records one after the other. *)
 Lemma del_fold : forall b l s,
@@ -266,7 +311,7 @@ Lemma del_fold : forall b l s,
   let s' := fold_left (del_rec b) l s in
   inv_core s' /\
   (forall x, In x (s_recs s') <-> In x (s_recs s) /\ ~ In (akey x) (map akey l)) /\
-  s_owner s' = s_owner s /\ s_now s' = s_now s /\ s_acct s' = s_acct s /\
+  same_frame s s' /\
   (forall x, In x (s_queue s') -> In x (s_queue s)) /\
   (b = false -> s_queue s' = s_queue s).
 Proof.
@@ -281,8 +326,8 @@ Proof.
       - apply Hincl. right. exact Hx.
       - intros E. apply Hnin. rewrite <- E. apply in_map. exact Hx. }
     destruct (IH (del_rec b s h) (inv_core_del_rec b s h Hinv Hh) Hnd' Hincl')
-      as [I1 [I2 [I3 [I4 [I5 [I6 I7]]]]]].
-    cbn zeta. split; [exact I1|]. split; [intros x; split|repeat split].
+      as [I1 [I2 [I3 [I6 I7]]]].
+    cbn zeta. split; [exact I1|]. split; [intros x; split|split; [|split]].
     + intros Hx. apply I2 in Hx. destruct Hx as [Hx Hn]. cbn [del_rec set_store s_recs] in Hx.
       apply In_remove_key in Hx. split; [tauto|]. cbn [map].
       intros [E|E]; [destruct Hx as [_ Hx]; congruence|tauto].
@@ -290,9 +335,7 @@ Proof.
       * cbn [del_rec set_store s_recs]. apply In_remove_key. split; [exact Hx|].
         intros E. apply Hn. left. symmetry. exact E.
       * intros Hin. apply Hn. right. exact Hin.
-    + rewrite I3. reflexivity.
-    + rewrite I4. reflexivity.
-    + rewrite I5. reflexivity.
+    + eapply same_frame_trans; [|exact I3]. repeat split.
     + intros x Hx. apply I6 in Hx. cbn [del_rec set_store s_queue] in Hx.
       destruct b; auto. unfold q_del in Hx. destruct (a_exp h); auto.
       apply In_q_remove in Hx. tauto.
@@ -304,7 +347,7 @@ Lemma del_filter : forall b p s,
   let s' := fold_left (del_rec b) (filter p (s_recs s)) s in
   inv_core s' /\
   (forall x, In x (s_recs s') <-> In x (s_recs s) /\ p x = false) /\
-  s_owner s' = s_owner s /\ s_now s' = s_now s /\ s_acct s' = s_acct s /\
+  same_frame s s' /\
   (forall x, In x (s_queue s') -> In x (s_queue s)) /\
   (b = false -> s_queue s' = s_queue s).
 Proof.
@@ -322,13 +365,10 @@ Proof.
 Qed.
 
 (** * The begin-block sweep *)
-Lemma attr_eq_dec : forall x y : attr, {x = y} + {x <> y}.
-Proof. repeat decide equality. Qed.
-
 Lemma inv_core_same_store : forall s s',
   s_recs s' = s_recs s -> s_cnt s' = s_cnt s -> s_queue s' = s_queue s -> inv_core s -> inv_core s'.
 Proof.
-  intros s s' E1 E2 E3 [Hnd Hc Hq]. constructor; rewrite ?E1, ?E2, ?E3; auto.
+  intros s s' E1 E2 E3 [Hnd Hc Hq Hqn]. constructor; rewrite ?E1, ?E2, ?E3; auto.
 Qed.
 
 Lemma sweep_entry_facts : forall s x,
@@ -336,7 +376,7 @@ Lemma sweep_entry_facts : forall s x,
   let s' := sweep_entry s x in
   inv_core s' /\
   (forall r, In r (s_recs s') -> In r (s_recs s)) /\
-  s_owner s' = s_owner s /\ s_now s' = s_now s /\ s_acct s' = s_acct s /\
+  same_frame s s' /\
   (forall r, In r (s_recs s) -> ~ In r (s_recs s') -> a_exp r = Some (fst x) /\ akey r = snd x) /\
   (forall r, In r (s_recs s) -> a_exp r = Some (fst x) -> akey r = snd x ->
              forall r', In r' (s_recs s') -> akey r' <> akey r).
@@ -347,9 +387,9 @@ Proof.
     destruct (oz_eqb (a_exp r0) (Some e)) eqn:E.
     + apply oz_eqb_eq in E.
       split; [apply inv_core_del_rec; auto|].
-      cbn [del_rec set_store s_recs s_owner s_now s_acct].
+      cbn [del_rec set_store s_recs].
       split; [intros r Hr; apply In_remove_key in Hr; tauto|].
-      split; [reflexivity|]. split; [reflexivity|]. split; [reflexivity|]. split.
+      split; [repeat split|]. split.
       * intros r Hr Hn.
         assert (Ek : akey r = akey r0).
         { destruct (key_eqb (akey r) (akey r0)) eqn:K; [apply key_eqb_eq; exact K|].
@@ -360,20 +400,22 @@ Proof.
       { intros r Hr Hk He. assert (r = r0) by (eapply NoDup_key_unique; eauto; [apply Hinv|congruence]).
         subst. apply oz_eqb_eq in He. congruence. }
       split.
-      { destruct Hinv as [Hnd Hc Hq]. constructor; cbn [set_store s_recs s_cnt s_queue]; auto.
-        intros r e' Hr He'. apply In_q_remove. split; eauto.
-        intros Eq. inversion Eq; subst. eapply Hstale; eauto. }
-      cbn [set_store s_recs s_owner s_now s_acct].
-      split; [auto|]. split; [reflexivity|]. split; [reflexivity|]. split; [reflexivity|]. split.
+      { destruct Hinv as [Hnd Hc Hq Hqn]. constructor; cbn [set_store s_recs s_cnt s_queue]; auto.
+        - intros r e' Hr He'. apply In_q_remove. split; eauto.
+          intros Eq. inversion Eq; subst. eapply Hstale; eauto.
+        - apply NoDup_q_remove. exact Hqn. }
+      cbn [set_store s_recs].
+      split; [auto|]. split; [repeat split|]. split.
       * intros r Hr Hn. contradiction.
       * intros r Hr He Hk. exfalso. eapply Hstale; eauto.
   - pose proof (find_rec_none _ _ F) as Hnone.
     split.
-    { destruct Hinv as [Hnd Hc Hq]. constructor; cbn [set_store s_recs s_cnt s_queue]; auto.
-      intros r e' Hr He'. apply In_q_remove. split; eauto.
-      intros Eq. inversion Eq; subst. eapply Hnone; eauto. }
-    cbn [set_store s_recs s_owner s_now s_acct].
-    split; [auto|]. split; [reflexivity|]. split; [reflexivity|]. split; [reflexivity|]. split.
+    { destruct Hinv as [Hnd Hc Hq Hqn]. constructor; cbn [set_store s_recs s_cnt s_queue]; auto.
+      - intros r e' Hr He'. apply In_q_remove. split; eauto.
+        intros Eq. inversion Eq; subst. eapply Hnone; eauto.
+      - apply NoDup_q_remove. exact Hqn. }
+    cbn [set_store s_recs].
+    split; [auto|]. split; [repeat split|]. split.
     + intros r Hr Hn. contradiction.
     + intros r Hr He Hk. exfalso. eapply Hnone; eauto.
 Qed.
@@ -383,20 +425,18 @@ Lemma sweep_fold : forall L s,
   let s' := fold_left sweep_entry L s in
   inv_core s' /\
   (forall r, In r (s_recs s') -> In r (s_recs s)) /\
-  s_owner s' = s_owner s /\ s_now s' = s_now s /\ s_acct s' = s_acct s /\
+  same_frame s s' /\
   (forall r, In r (s_recs s) -> ~ In r (s_recs s') -> exists e, a_exp r = Some e /\ In (e, akey r) L) /\
   (forall r e, In r (s_recs s) -> a_exp r = Some e -> In (e, akey r) L ->
                forall r', In r' (s_recs s') -> akey r' <> akey r).
 Proof.
   induction L as [|h t IH]; intros s Hinv; cbn [fold_left]; cbn zeta.
-  - split; [exact Hinv|]. split; [auto|]. split; [reflexivity|]. split; [reflexivity|].
-    split; [reflexivity|]. split.
+  - split; [exact Hinv|]. split; [auto|]. split; [apply same_frame_refl|]. split.
     + intros r Hr Hn. contradiction.
     + intros r e Hr He [].
-  - destruct (sweep_entry_facts s h Hinv) as [F1 [F2 [F3 [F4 [F5 [F6 F7]]]]]].
-    destruct (IH (sweep_entry s h) F1) as [I1 [I2 [I3 [I4 [I5 [I6 I7]]]]]].
-    split; [exact I1|]. split; [auto|]. split; [congruence|]. split; [congruence|].
-    split; [congruence|]. split.
+  - destruct (sweep_entry_facts s h Hinv) as [F1 [F2 [F3 [F6 F7]]]].
+    destruct (IH (sweep_entry s h) F1) as [I1 [I2 [I3 [I6 I7]]]].
+    split; [exact I1|]. split; [auto|]. split; [eapply same_frame_trans; eauto|]. split.
     + intros r Hr Hn. destruct (in_dec attr_eq_dec r (s_recs (sweep_entry s h))) as [Hin|Hnin].
       * destruct (I6 r Hin Hn) as [e [He Hl]]. exists e. split; auto. right. exact Hl.
       * destruct (F6 r Hr Hnin) as [He Hk]. exists (fst h). split; auto. left.
@@ -409,218 +449,828 @@ Proof.
       * destruct (F6 r Hr Hnin) as [He' Hk]. apply (F7 r Hr He' Hk). apply I2. exact Hr'.
 Qed.
 
+(** ** the limit: the loop processes a prefix of the due entries; it stops early only after
+    [limit] records have been deleted *)
+Definition expired (t : Z) (r : attr) : bool :=
+  match a_exp r with Some e => e <? t | None => false end.
+Definition ecount (t : Z) (s : state) : Z := Z.of_nat (List.length (filter (expired t) (s_recs s))).
+
+Lemma len_filter_remove_unique : forall (p : attr -> bool) l r,
+  NoDup (map akey l) -> In r l -> p r = true ->
+  (List.length (filter p (remove_key (akey r) l)) + 1 = List.length (filter p l))%nat.
+Proof.
+  intros p l r. induction l as [|x t IH]; intros Hnd Hin Hp; [destruct Hin|].
+  cbn [map] in Hnd. inversion Hnd as [|? ? Hnin Hnd']; subst.
+  unfold remove_key in *. cbn [filter]. destruct Hin as [->|Hin].
+  - rewrite key_eqb_refl. cbn [negb]. rewrite Hp. cbn [List.length].
+    assert (E : filter (fun r0 => negb (key_eqb (akey r0) (akey r))) t = t).
+    { clear - Hnin. induction t as [|y t' IHt]; [reflexivity|]. cbn [filter].
+      destruct (key_eqb (akey y) (akey r)) eqn:K.
+      - exfalso. apply Hnin. apply key_eqb_eq in K. rewrite <- K. left. reflexivity.
+      - cbn [negb]. f_equal. apply IHt. intros H. apply Hnin. right. exact H. }
+    rewrite E. lia.
+  - assert (K : key_eqb (akey x) (akey r) = false).
+    { apply key_eqb_neq. intros E. apply Hnin. rewrite E. apply in_map. exact Hin. }
+    rewrite K. cbn [negb filter]. specialize (IH Hnd' Hin Hp).
+    destruct (p x); cbn [List.length]; lia.
+Qed.
+
+Lemma sweep_entry_count : forall t s x,
+  inv_core s -> fst x < t ->
+  ecount t (sweep_entry s x) = ecount t s - (if sweep_deletes s x then 1 else 0).
+Proof.
+  intros t s [e k] Hinv Hlt. unfold sweep_entry, sweep_deletes, ecount. cbn [fst snd] in *.
+  destruct (find_rec k (s_recs s)) as [r0|] eqn:F; [|cbn [set_store s_recs]; lia].
+  destruct (oz_eqb (a_exp r0) (Some e)) eqn:E; [|cbn [set_store s_recs]; lia].
+  apply oz_eqb_eq in E. apply find_rec_some in F. destruct F as [Hin _].
+  cbn [del_rec set_store s_recs].
+  pose proof (len_filter_remove_unique (expired t) (s_recs s) r0 (ic_nodup _ Hinv) Hin) as H.
+  assert (Hex : expired t r0 = true) by (unfold expired; rewrite E; lia).
+  specialize (H Hex). lia.
+Qed.
+
+Lemma sweep_loop_prefix : forall t limit L count s,
+  inv_core s -> Forall (fun x => fst x < t) L ->
+  exists L1 L2, L = L1 ++ L2 /\
+    sweep_loop limit count L s = fold_left sweep_entry L1 s /\
+    (L2 = [] \/ (limit <> 0 /\ limit <= count + (ecount t s - ecount t (sweep_loop limit count L s)))).
+Proof.
+  intros t limit L. induction L as [|x T IH]; intros count s Hinv Hall.
+  - exists [], []. repeat split. left. reflexivity.
+  - inversion Hall as [|? ? Hx HT]; subst. cbn [sweep_loop].
+    pose proof (sweep_entry_count t s x Hinv Hx) as Hc.
+    destruct (sweep_entry_facts s x Hinv) as [Hinv1 _].
+    set (count' := if sweep_deletes s x then count + 1 else count) in *.
+    destruct (negb (sweep_stale s x) && negb (limit =? 0) && (limit <=? count')) eqn:B.
+    + exists [x], T. split; [reflexivity|]. split; [reflexivity|]. right.
+      apply andb_true_iff in B. destruct B as [B B3]. apply andb_true_iff in B. destruct B as [_ B2].
+      split; [lia|]. subst count'. destruct (sweep_deletes s x); lia.
+    + destruct (IH count' (sweep_entry s x) Hinv1 HT) as [L1 [L2 [E1 [E2 E3]]]].
+      exists (x :: L1), L2. split; [rewrite E1; reflexivity|]. split; [exact E2|].
+      destruct E3 as [E3|[E3 E4]]; [left; exact E3|right]. split; [exact E3|].
+      subst count'. destruct (sweep_deletes s x); lia.
+Qed.
+
 Lemma In_due : forall t q e k, In (e, k) (due t q) <-> In (e, k) q /\ e < t.
 Proof. intros. unfold due. rewrite filter_In. cbn [fst]. rewrite Z.ltb_lt. tauto. Qed.
 
+Lemma In_insert_entry : forall cfg x y l, In x (insert_entry cfg y l) <-> x = y \/ In x l.
+Proof.
+  intros cfg x y l. induction l as [|h t IH]; cbn [insert_entry].
+  - cbn. intuition congruence.
+  - destruct (entry_ltb cfg h y); cbn [In]; [rewrite IH|]; intuition congruence.
+Qed.
+
+Lemma In_sort_entries : forall cfg x l, In x (sort_entries cfg l) <-> In x l.
+Proof.
+  intros cfg x l. induction l as [|h t IH]; [tauto|]. unfold sort_entries in *. cbn [fold_right].
+  rewrite In_insert_entry, IH. cbn [In]. intuition congruence.
+Qed.
+
+Lemma due_sorted_all_lt : forall cfg t q, Forall (fun x => fst x < t) (sort_entries cfg (due t q)).
+Proof.
+  intros cfg t q. apply Forall_forall. intros [e k] H. apply In_sort_entries in H.
+  apply In_due in H. cbn [fst]. tauto.
+Qed.
+
+(** what one sweep does, whatever the limit; [T] is any time not before the block time (the
+    count of deleted records is the same measured against any such time) *)
+Lemma sweep_facts_at : forall cfg limit s T,
+  inv_core s -> s_now s <= T ->
+  let s' := sweep cfg limit s in
+  inv_core s' /\
+  (forall r, In r (s_recs s') -> In r (s_recs s)) /\
+  same_frame s s' /\
+  (forall r, In r (s_recs s) -> ~ In r (s_recs s') -> exists e, a_exp r = Some e /\ e < s_now s) /\
+  ((forall r, In r (s_recs s) -> expired (s_now s) r = true ->
+              forall r', In r' (s_recs s') -> akey r' <> akey r) \/
+   (limit <> 0 /\ limit <= ecount T s - ecount T s')).
+Proof.
+  intros cfg limit s T Hinv HT. cbn zeta. unfold sweep.
+  set (L := sort_entries cfg (due (s_now s) (s_queue s))).
+  assert (HL : Forall (fun x => fst x < T) L).
+  { pose proof (due_sorted_all_lt cfg (s_now s) (s_queue s)) as H. fold L in H.
+    eapply Forall_impl; [|exact H]. cbn beta. intros x Hx. lia. }
+  destruct (sweep_loop_prefix T limit L 0 s Hinv HL) as [L1 [L2 [E1 [E2 E3]]]].
+  rewrite E2 in *.
+  destruct (sweep_fold L1 s Hinv) as [I1 [I2 [I3 [I6 I7]]]].
+  split; [exact I1|]. split; [exact I2|]. split; [exact I3|]. split.
+  - intros r Hr Hn. destruct (I6 r Hr Hn) as [e [He Hl]]. exists e. split; [exact He|].
+    assert (HinL : In (e, akey r) L) by (rewrite E1; apply in_or_app; left; exact Hl).
+    apply In_sort_entries in HinL. apply In_due in HinL. tauto.
+  - destruct E3 as [E3|[E3 E4]]; [left|right; split; [exact E3|lia]].
+    subst L2. rewrite app_nil_r in E1. subst L1.
+    intros r Hr Hex. unfold expired in Hex. destruct (a_exp r) as [e|] eqn:He; [|discriminate].
+    apply (I7 r e Hr He). apply In_sort_entries. apply In_due. split; [|lia].
+    apply (ic_queue _ Hinv); assumption.
+Qed.
+
+Lemma sweep_facts : forall cfg limit s,
+  inv_core s ->
+  let s' := sweep cfg limit s in
+  inv_core s' /\
+  (forall r, In r (s_recs s') -> In r (s_recs s)) /\
+  same_frame s s' /\
+  (forall r, In r (s_recs s) -> ~ In r (s_recs s') -> exists e, a_exp r = Some e /\ e < s_now s) /\
+  ((forall r, In r (s_recs s) -> expired (s_now s) r = true ->
+              forall r', In r' (s_recs s') -> akey r' <> akey r) \/
+   (limit <> 0 /\ limit <= ecount (s_now s) s - ecount (s_now s) s')).
+Proof. intros cfg limit s Hinv. apply sweep_facts_at; [exact Hinv|lia]. Qed.
+
+Lemma ecount_pos : forall t s r, In r (s_recs s) -> expired t r = true -> 1 <= ecount t s.
+Proof.
+  intros t s r Hr He. unfold ecount.
+  assert (In r (filter (expired t) (s_recs s))) by (apply filter_In; auto).
+  destruct (filter (expired t) (s_recs s)); [contradiction|]. cbn [List.length]. lia.
+Qed.
+
+Lemma ecount_nonneg : forall t s, 0 <= ecount t s.
+Proof. intros. unfold ecount. lia. Qed.
+
+(** the clause of the property: under "no more attributes have expired than the limit allows"
+    (or no limit) every expired attribute is gone after the sweep *)
+Lemma sweep_expired_gone : forall cfg limit s r,
+  inv_core s -> (limit = 0 \/ ecount (s_now s) s <= limit) ->
+  In r (s_recs s) -> expired (s_now s) r = true ->
+  forall r', In r' (s_recs (sweep cfg limit s)) -> akey r' <> akey r.
+Proof.
+  intros cfg limit s r Hinv Hlim Hr Hex r' Hr' Ek.
+  destruct (sweep_facts cfg limit s Hinv) as [I1 [I2 [_ [_ [I5|[I5 I6]]]]]].
+  - exact (I5 r Hr Hex r' Hr' Ek).
+  - destruct Hlim as [Hlim|Hlim]; [contradiction|].
+    assert (r' = r) by (apply (NoDup_key_unique (s_recs s)); auto; apply Hinv). subst r'.
+    pose proof (ecount_pos _ _ _ Hr' Hex). lia.
+Qed.
+
+(** * Part 2: what each keeper entry point does (inversion lemmas) *)
+Definition the_attr (a : N) (n : string) (v ty : Z) (e : option Z) : attr :=
+  {| a_acct := a; a_name := n; a_val := v; a_type := ty; a_exp := e |}.
+
+Lemma set_attribute_spec : forall cfg s c a name v ty e s',
+  set_attribute cfg s c a name v ty e = Some s' ->
+  exists n, norm cfg name = Some n /\ resolves s n c = true /\ c_has_acct cfg c = true /\
+            s' = put s (the_attr a n v ty e).
+Proof.
+  intros cfg s c a name v ty e s' H. unfold set_attribute in H.
+  destruct (exp_ok (s_now s) e && attr_basic cfg a name ty && (c_vlen cfg v <=? s_maxlen s)); [|discriminate].
+  destruct (norm cfg name) as [n|]; [|discriminate].
+  destruct (c_has_acct cfg c && resolves s n c) eqn:G; [|discriminate].
+  apply andb_true_iff in G. destruct G as [G1 G2]. injection H as <-. exists n. auto.
+Qed.
+
+Lemma update_attribute_spec : forall cfg s c a name ov oty nv nty s',
+  update_attribute cfg s c a name ov oty nv nty = Some s' ->
+  exists n cur, norm cfg name = Some n /\ resolves s n c = true /\ c_has_acct cfg c = true /\
+                In cur (s_recs s) /\ akey cur = (a, ank name, ov) /\
+                s' = put (del_rec true s cur) (the_attr a n nv nty None).
+Proof.
+  intros cfg s c a name ov oty nv nty s' H. unfold update_attribute in H.
+  destruct (attr_basic cfg a name oty && type_ok nty && (c_vlen cfg nv <=? s_maxlen s)); [|discriminate].
+  destruct (norm cfg name) as [n|]; [|discriminate].
+  destruct (c_has_acct cfg c && resolves s n c) eqn:G; [|discriminate].
+  apply andb_true_iff in G. destruct G as [G1 G2].
+  destruct (find_rec (a, ank name, ov) (s_recs s)) as [cur|] eqn:F; [|discriminate].
+  destruct (a_type cur =? oty); [|discriminate]. injection H as <-.
+  apply find_rec_some in F. destruct F as [F1 F2]. exists n, cur. auto 10.
+Qed.
+
+Lemma update_expiration_spec : forall cfg s c a name v e s',
+  update_expiration cfg s c a name v e = Some s' ->
+  exists n cur, norm cfg name = Some n /\ resolves s n c = true /\ c_has_acct cfg c = true /\
+                In cur (s_recs s) /\ akey cur = (a, ank n, v) /\
+                s' = set_store s (with_exp cur e :: remove_key (akey cur) (s_recs s)) (s_cnt s)
+                               (q_add (q_del (s_queue s) cur) (with_exp cur e)).
+Proof.
+  intros cfg s c a name v e s' H. unfold update_expiration in H.
+  destruct (exp_ok (s_now s) e && negb (blank name) && holder_ok cfg a); [|discriminate].
+  destruct (norm cfg name) as [n|]; [|discriminate].
+  destruct (c_has_acct cfg c && resolves s n c) eqn:G; [|discriminate].
+  apply andb_true_iff in G. destruct G as [G1 G2].
+  destruct (find_rec (a, ank n, v) (s_recs s)) as [cur|] eqn:F; [|discriminate].
+  injection H as <-. apply find_rec_some in F. destruct F as [F1 F2]. exists n, cur. auto 10.
+Qed.
+
+Lemma delete_k_spec : forall cfg s c a name ov s',
+  delete_attribute_k cfg s c a name ov = Some s' ->
+  may_remove cfg s c name = true /\
+  (exists r, In r (s_recs s) /\ delete_matches a name ov r = true) /\
+  s' = fold_left (del_rec true) (filter (delete_matches a name ov) (s_recs s)) s.
+Proof.
+  intros cfg s c a name ov s' H. unfold delete_attribute_k in H.
+  destruct (may_remove cfg s c name); [|discriminate]. split; [reflexivity|].
+  destruct (filter (delete_matches a name ov) (s_recs s)) as [|x t] eqn:Fl; [discriminate|].
+  injection H as <-. split; [|reflexivity].
+  exists x. apply filter_In. rewrite Fl. left. reflexivity.
+Qed.
+
+Lemma delete_msg_spec : forall cfg s c a name ov s',
+  delete_attribute cfg s c a name ov = Some s' -> delete_attribute_k cfg s c a name ov = Some s'.
+Proof.
+  intros cfg s c a name ov s' H. unfold delete_attribute in H.
+  destruct (negb (blank name) && holder_ok cfg a); [exact H|discriminate].
+Qed.
+
+Definition purge_matches (s : state) (name : string) (r : attr) : bool :=
+  String.eqb (ank (a_name r)) (ank name) && (0 <? s_cnt s (ank name) (a_acct r)).
+
+Lemma purge_spec : forall cfg s c name s',
+  purge_attribute cfg s c name = Some s' ->
+  may_remove cfg s c name = true /\
+  s' = fold_left (del_rec false) (filter (purge_matches s name) (s_recs s)) s.
+Proof.
+  intros cfg s c name s' H. unfold purge_attribute in H.
+  destruct (may_remove cfg s c name); [|discriminate]. destruct (negb (blank name)); [|discriminate].
+  injection H as <-. split; reflexivity.
+Qed.
+
+(** a delete removes exactly the matching records; a purge exactly the records of that name key *)
+Lemma delete_k_removes : forall cfg s c a name ov s',
+  inv_core s -> delete_attribute_k cfg s c a name ov = Some s' ->
+  inv_core s' /\ same_frame s s' /\
+  (forall x, In x (s_recs s') <-> In x (s_recs s) /\ delete_matches a name ov x = false).
+Proof.
+  intros cfg s c a name ov s' Hc H. destruct (delete_k_spec _ _ _ _ _ _ _ H) as [_ [_ ->]].
+  destruct (del_filter true (delete_matches a name ov) s Hc) as [I1 [I2 [I3 _]]]. auto.
+Qed.
+
+Lemma purge_removes : forall cfg s c name s',
+  inv_core s -> purge_attribute cfg s c name = Some s' ->
+  inv_core s' /\ same_frame s s' /\ s_queue s' = s_queue s /\
+  (forall x, In x (s_recs s') <-> In x (s_recs s) /\ ank (a_name x) <> ank name).
+Proof.
+  intros cfg s c name s' Hc H. destruct (purge_spec _ _ _ _ _ H) as [_ ->].
+  destruct (del_filter false (purge_matches s name) s Hc) as [I1 [I2 [I3 [_ I5]]]].
+  split; [exact I1|]. split; [exact I3|]. split; [exact (I5 eq_refl)|].
+  intros x. rewrite I2. split; intros [Hx Hp]; (split; [exact Hx|]).
+  - intros E. unfold purge_matches in Hp. rewrite E, String.eqb_refl in Hp. cbn [andb] in Hp.
+    pose proof (count_pos_in x _ Hx). pose proof (ic_cnt _ Hc (ank (a_name x)) (a_acct x)).
+    rewrite E in *. lia.
+  - unfold purge_matches. destruct (String.eqb_spec (ank (a_name x)) (ank name)); [contradiction|reflexivity].
+Qed.
+
+Lemma inv_core_update_exp : forall s cur e,
+  inv_core s -> In cur (s_recs s) ->
+  inv_core (set_store s (with_exp cur e :: remove_key (akey cur) (s_recs s)) (s_cnt s)
+                      (q_add (q_del (s_queue s) cur) (with_exp cur e))).
+Proof.
+  intros s cur e [Hnd Hc Hq Hqn] Hin.
+  constructor; cbn [set_store s_recs s_cnt s_queue].
+  - change (akey cur) with (akey (with_exp cur e)). apply nodup_put. exact Hnd.
+  - intros n a. rewrite count_cons. change (cmatch n a (with_exp cur e)) with (cmatch n a cur).
+    pose proof (Hc n a) as Hna. pose proof (count_remove_le n a (akey cur) (s_recs s)) as Hle.
+    destruct (cmatch n a cur) eqn:M; [|lia].
+    apply cmatch_pair in M. inversion M; subst n a.
+    pose proof (count_remove_lt cur (s_recs s) Hin). lia.
+  - intros x e' [<-|Hx] He'.
+    + apply In_q_add_self. exact He'.
+    + apply In_remove_key in Hx. destruct Hx as [Hx Hne].
+      apply In_q_add. apply In_q_del_other; eauto.
+  - apply NoDup_q_add. apply NoDup_q_del. exact Hqn.
+Qed.
+
+(** SetAccountData: either nothing changes, or it is a delete of the account's accountdata
+    attributes as the module account, and/or a SetAttribute of the new value as the module account *)
+Lemma set_account_data_spec : forall cfg s via a v s',
+  set_account_data cfg s via a v = Some s' ->
+  exists s1,
+    (s1 = s \/ delete_attribute_k cfg s mod_addr a account_data_name None = Some s1) /\
+    (s' = s1 \/ set_attribute cfg s1 mod_addr a account_data_name v 3 None = Some s').
+Proof.
+  intros cfg s via a v s' H. unfold set_account_data in H.
+  destruct (via && negb (plain_acct cfg a)); [discriminate|].
+  destruct (get_attributes s a account_data_name) as [ex|]; [|discriminate].
+  destruct ex as [|x t].
+  - exists s. split; [left; reflexivity|]. destruct (v =? 0); [left; congruence|right; exact H].
+  - destruct (delete_attribute_k cfg s mod_addr a account_data_name None) as [s1|] eqn:D; [|discriminate].
+    exists s1. split; [right; reflexivity|]. destruct (v =? 0); [left; congruence|right; exact H].
+Qed.
+
+(** * Part 3: the invariants that involve the name module *)
+Definition ninv (cfg : config) (s : state) : Prop := NameProofs.inv idh (c_params cfg) (s_names s).
+(** every stored attribute name is a normal form *)
+Definition normal (cfg : config) (s : state) : Prop :=
+  forall r, In r (s_recs s) -> exists raw, norm cfg raw = Some (a_name r).
+(** every stored attribute's name is bound: the name module holds a record with exactly that name *)
+Definition named (s : state) : Prop :=
+  forall r, In r (s_recs s) ->
+    exists nr, get_record idh (s_names s) (a_name r) = Some nr /\ r_name nr = a_name r.
+(** all names in the two stores come from the universe [U] *)
+Definition names_in (U : list string) (s : state) : Prop :=
+  (forall k nr, rget (s_names s) k = Some nr -> In (r_name nr) U) /\
+  (forall r, In r (s_recs s) -> In (a_name r) U).
+(** no two names of [U] share a name-module key (C15's known finding is the failure of this for
+    e.g. aa.bbcc / ccaa.bb) *)
+Definition coll_free (U : list string) : Prop :=
+  forall n1 n2, In n1 U -> In n2 U -> name_key_preimage n1 = name_key_preimage n2 -> n1 = n2.
+(** the names an operation mentions, in normal form, belong to [U] *)
+Definition op_in (cfg : config) (U : list string) (o : op) : Prop :=
+  match o with
+  | OBind parent _ child _ _ => forall n, norm cfg (child ++ "." ++ parent)%string = Some n -> In n U
+  | OModifyName _ name _ _ | ODeleteName name _ | OAdd _ _ name _ _ _ | OUpdate _ _ name _ _ _ _
+  | OUpdateExp _ _ name _ _ | ODelete _ _ name | ODeleteDistinct _ _ name _ | OPurge _ name =>
+      forall n, norm cfg name = Some n -> In n U
+  | OSetAccountData _ _ _ => In account_data_name U
+  | _ => True
+  end.
+
+Record inv0 (cfg : config) (s : state) : Prop := {
+  i_core : inv_core s; i_names : ninv cfg s; i_normal : normal cfg s }.
+Definition inv1 (U : list string) (s : state) : Prop := named s /\ names_in U s.
+
+Lemma get_record_key : forall ns n nr,
+  get_record idh ns n = Some nr <-> exists k, name_key_preimage n = Some k /\ rget ns k = Some nr.
+Proof.
+  intros ns n nr. unfold get_record, name_key, idh. destruct (name_key_preimage n) as [k|].
+  - split; [intros H; exists k; auto|intros [k' [E H]]; injection E as ->; exact H].
+  - split; [discriminate|intros [k' [E _]]; discriminate].
+Qed.
+
+Lemma name_key_idh : forall n k, name_key idh n = Some k <-> name_key_preimage n = Some k.
+Proof. intros n k. unfold name_key, idh. destruct (name_key_preimage n); tauto. Qed.
+
+(** under collision freedom a record found under a name's key is the record OF that name *)
+Lemma exact_record : forall cfg U s n nr,
+  ninv cfg s -> coll_free U -> names_in U s -> In n U ->
+  get_record idh (s_names s) n = Some nr -> r_name nr = n.
+Proof.
+  intros cfg U s n nr Hn Hcf [Hu _] Hin H. apply get_record_key in H. destruct H as [k [Ek Hk]].
+  destruct (inv_key _ _ _ Hn k nr Hk) as [Hkey _]. apply name_key_idh in Hkey.
+  apply Hcf; [eapply Hu; eauto|exact Hin|congruence].
+Qed.
+
+Lemma resolves_record : forall s n c,
+  resolves s n c = true -> exists nr, get_record idh (s_names s) n = Some nr /\ r_addr nr = c.
+Proof.
+  intros s n c H. unfold resolves, resolves_to in H.
+  destruct (get_record idh (s_names s) n) as [nr|]; [|discriminate].
+  exists nr. split; [reflexivity|]. apply N.eqb_eq. exact H.
+Qed.
+
+Lemma owner_of_exact : forall s n nr, get_record idh (s_names s) n = Some nr -> r_name nr = n ->
+  owner_of s n = Some (r_addr nr).
+Proof. intros s n nr H E. unfold owner_of. rewrite H, E, String.eqb_refl. reflexivity. Qed.
+
+Lemma resolves_owner : forall cfg U s n c,
+  ninv cfg s -> coll_free U -> names_in U s -> In n U -> resolves s n c = true -> owner_of s n = Some c.
+Proof.
+  intros cfg U s n c Hn Hcf Hu Hin H. destruct (resolves_record _ _ _ H) as [nr [Hr <-]].
+  apply owner_of_exact; [exact Hr|]. eapply exact_record; eauto.
+Qed.
+
+(** an operation that leaves the name store alone and whose records carry old names, or a new
+    normalised name that resolves to somebody *)
+Lemma inv_store_step : forall cfg U s s',
+  s_names s' = s_names s ->
+  (forall r, In r (s_recs s') ->
+     (exists r0, In r0 (s_recs s) /\ a_name r0 = a_name r) \/
+     (exists raw, norm cfg raw = Some (a_name r))) ->
+  ninv cfg s -> normal cfg s ->
+  (ninv cfg s' /\ normal cfg s') /\
+  (coll_free U ->
+   (forall r, In r (s_recs s') ->
+     (exists r0, In r0 (s_recs s) /\ a_name r0 = a_name r) \/
+     (exists c, In (a_name r) U /\ resolves s (a_name r) c = true)) ->
+   inv1 U s -> inv1 U s').
+Proof.
+  intros cfg U s s' En Hfrom Hn Hnorm. split; [split|].
+  - unfold ninv. rewrite En. exact Hn.
+  - intros r Hr. destruct (Hfrom r Hr) as [[r0 [H0 E0]]|[raw H]].
+    + rewrite <- E0. apply Hnorm. exact H0.
+    + exists raw. exact H.
+  - intros Hcf Hfrom' [Hnamed Hu]. split; [|split].
+    + intros r Hr. rewrite En. destruct (Hfrom' r Hr) as [[r0 [H0 E0]]|[c [HU Hres]]].
+      * rewrite <- E0. apply Hnamed. exact H0.
+      * destruct (resolves_record _ _ _ Hres) as [nr [Hg _]]. exists nr. split; [exact Hg|].
+        eapply exact_record; eauto.
+    + rewrite En. apply Hu.
+    + intros r Hr. destruct (Hfrom' r Hr) as [[r0 [H0 E0]]|[c [HU _]]]; [|exact HU].
+      rewrite <- E0. apply Hu. exact H0.
+Qed.
+
+Definition keeps (cfg : config) (U : list string) (s s' : state) (HU : Prop) : Prop :=
+  inv0 cfg s' /\ (coll_free U -> HU -> inv1 U s -> inv1 U s').
+
+Lemma In_put : forall s r x, In x (s_recs (put s r)) -> x = r \/ In x (s_recs s).
+Proof.
+  intros s r x H. cbn [put set_store s_recs] in H. destruct H as [<-|H]; [left; reflexivity|].
+  apply In_remove_key in H. tauto.
+Qed.
+
+Lemma old_name : forall s x, In x (s_recs s) -> exists r0, In r0 (s_recs s) /\ a_name r0 = a_name x.
+Proof. intros s x H. exists x. auto. Qed.
+
+(** the shape shared by all attribute-store operations *)
+Lemma store_op_keeps : forall cfg U s s' (HU : Prop),
+  inv0 cfg s -> inv_core s' -> s_names s' = s_names s ->
+  (forall r, In r (s_recs s') ->
+     (exists r0, In r0 (s_recs s) /\ a_name r0 = a_name r) \/
+     (exists raw c, norm cfg raw = Some (a_name r) /\ resolves s (a_name r) c = true /\
+                    (HU -> In (a_name r) U))) ->
+  keeps cfg U s s' HU.
+Proof.
+  intros cfg U s s' HU [Hc Hn Hnorm] Hc' En Hfrom.
+  destruct (inv_store_step cfg U s s' En) as [[I1 I2] I3]; auto.
+  - intros r Hr. destruct (Hfrom r Hr) as [H|[raw [c [H _]]]]; [left; exact H|right; exists raw; exact H].
+  - split; [constructor; assumption|]. intros Hcf Hu Hi. apply I3; auto.
+    intros r Hr. destruct (Hfrom r Hr) as [H|[raw [c [_ [H1 H2]]]]]; [left; exact H|right].
+    exists c. auto.
+Qed.
+
+Lemma set_attribute_keeps : forall cfg U s c a name v ty e s',
+  inv0 cfg s -> set_attribute cfg s c a name v ty e = Some s' ->
+  keeps cfg U s s' (forall n, norm cfg name = Some n -> In n U).
+Proof.
+  intros cfg U s c a name v ty e s' Hi H.
+  destruct (set_attribute_spec _ _ _ _ _ _ _ _ _ H) as [n [Hn [Hres [_ ->]]]].
+  apply store_op_keeps; auto.
+  - apply inv_core_put. apply Hi.
+  - intros r Hr. apply In_put in Hr. destruct Hr as [->|Hr]; [right|left; apply old_name; exact Hr].
+    exists name, c. cbn [the_attr a_name]. auto.
+Qed.
+
+Lemma update_attribute_keeps : forall cfg U s c a name ov oty nv nty s',
+  inv0 cfg s -> update_attribute cfg s c a name ov oty nv nty = Some s' ->
+  keeps cfg U s s' (forall n, norm cfg name = Some n -> In n U).
+Proof.
+  intros cfg U s c a name ov oty nv nty s' Hi H.
+  destruct (update_attribute_spec _ _ _ _ _ _ _ _ _ _ H) as [n [cur [Hn [Hres [_ [Hcur [_ ->]]]]]]].
+  apply store_op_keeps; auto.
+  - apply inv_core_put. apply inv_core_del_rec; [apply Hi|exact Hcur].
+  - intros r Hr. apply In_put in Hr. destruct Hr as [->|Hr].
+    + right. exists name, c. cbn [the_attr a_name]. auto.
+    + left. cbn [del_rec set_store s_recs] in Hr. apply In_remove_key in Hr. apply old_name. tauto.
+Qed.
+
+Lemma update_expiration_keeps : forall cfg U s c a name v e s' (HU : Prop),
+  inv0 cfg s -> update_expiration cfg s c a name v e = Some s' -> keeps cfg U s s' HU.
+Proof.
+  intros cfg U s c a name v e s' HU Hi H.
+  destruct (update_expiration_spec _ _ _ _ _ _ _ _ H) as [n [cur [Hn [Hres [_ [Hcur [_ ->]]]]]]].
+  apply store_op_keeps; auto.
+  - apply inv_core_update_exp; [apply Hi|exact Hcur].
+  - intros r Hr. cbn [set_store s_recs] in Hr. left. destruct Hr as [<-|Hr].
+    + exists cur. auto.
+    + apply In_remove_key in Hr. apply old_name. tauto.
+Qed.
+
+Lemma delete_k_keeps : forall cfg U s c a name ov s' (HU : Prop),
+  inv0 cfg s -> delete_attribute_k cfg s c a name ov = Some s' -> keeps cfg U s s' HU.
+Proof.
+  intros cfg U s c a name ov s' HU Hi H.
+  destruct (delete_k_removes _ _ _ _ _ _ _ (i_core _ _ Hi) H) as [I1 [[I2 _] I3]].
+  apply store_op_keeps; auto.
+  intros r Hr. left. apply old_name. apply I3 in Hr. tauto.
+Qed.
+
+Lemma purge_keeps : forall cfg U s c name s' (HU : Prop),
+  inv0 cfg s -> purge_attribute cfg s c name = Some s' -> keeps cfg U s s' HU.
+Proof.
+  intros cfg U s c name s' HU Hi H.
+  destruct (purge_removes _ _ _ _ _ (i_core _ _ Hi) H) as [I1 [[I2 _] [_ I3]]].
+  apply store_op_keeps; auto.
+  intros r Hr. left. apply old_name. apply I3 in Hr. tauto.
+Qed.
+
+Lemma keeps_trans : forall cfg U s s1 s2 (H1 H2 : Prop),
+  keeps cfg U s s1 H1 -> keeps cfg U s1 s2 H2 -> keeps cfg U s s2 (H1 /\ H2).
+Proof.
+  intros cfg U s s1 s2 H1 H2 [A1 A2] [B1 B2]. split; [exact B1|].
+  intros Hcf [h1 h2] Hi. apply B2; auto.
+Qed.
+
+Lemma keeps_weaken : forall cfg U s s' (H1 H2 : Prop),
+  (H2 -> H1) -> keeps cfg U s s' H1 -> keeps cfg U s s' H2.
+Proof. intros cfg U s s' H1 H2 Himp [A1 A2]. split; [exact A1|]. intros Hcf h2 Hi. apply A2; auto. Qed.
+
+Lemma norm_account_data : forall cfg n, norm cfg account_data_name = Some n -> n = account_data_name.
+Proof. intros cfg n H. rewrite (normalize_is_normalize_name _ _ _ H). reflexivity. Qed.
+
+Lemma set_account_data_keeps : forall cfg U s via a v s',
+  inv0 cfg s -> set_account_data cfg s via a v = Some s' ->
+  keeps cfg U s s' (In account_data_name U).
+Proof.
+  intros cfg U s via a v s' Hi H.
+  destruct (set_account_data_spec _ _ _ _ _ _ H) as [s1 [Hd Hs]].
+  assert (K1 : keeps cfg U s s1 True).
+  { destruct Hd as [->|Hd]; [split; [exact Hi|auto]|]. eapply delete_k_keeps; eauto. }
+  assert (K2 : keeps cfg U s1 s' (In account_data_name U)).
+  { destruct Hs as [->|Hs]; [split; [apply K1|auto]|].
+    eapply keeps_weaken; [|eapply set_attribute_keeps; [apply K1|exact Hs]].
+    intros HU n Hn. rewrite (norm_account_data _ _ Hn). exact HU. }
+  eapply keeps_weaken; [|exact (keeps_trans _ _ _ _ _ _ _ K1 K2)]. tauto.
+Qed.
+
+(** ** name-module messages *)
+Lemma inv_core_set_names : forall s ns, inv_core s -> inv_core (set_names s ns).
+Proof. intros s ns H. apply (inv_core_same_store s); auto. Qed.
+
+Lemma named_frame : forall s ns' k,
+  named s -> rget (s_names s) k = None ->
+  (forall k', k' <> k -> rget ns' k' = rget (s_names s) k') -> named (set_names s ns').
+Proof.
+  intros s ns' k Hnamed Hnone Hframe r Hr. cbn [set_names s_recs s_names] in *.
+  destruct (Hnamed r Hr) as [nr [Hg E]]. exists nr. split; [|exact E].
+  apply get_record_key in Hg. destruct Hg as [k0 [Ek Hk]]. apply get_record_key. exists k0.
+  split; [exact Ek|]. rewrite Hframe; [exact Hk|]. intros ->. congruence.
+Qed.
+
+Lemma bind_keeps : forall cfg U s parent signer child owner restr ns,
+  inv0 cfg s -> bind idh (c_params cfg) (s_names s) parent signer child owner restr = Some ns ->
+  keeps cfg U s (set_names s ns) (forall n, norm cfg (child ++ "." ++ parent)%string = Some n -> In n U).
+Proof.
+  intros cfg U s parent signer child owner restr ns [Hc Hn Hnorm] H. split.
+  - constructor; [apply inv_core_set_names; exact Hc| |exact Hnorm].
+    unfold ninv. cbn [set_names s_names].
+    apply (NameProofs.exec_inv idh (c_params cfg) (s_names s) (OpBind parent signer child owner restr)); assumption.
+  - intros Hcf HU [Hnamed [Hu1 Hu2]].
+    destruct (bind_spec _ _ _ _ _ _ _ _ _ H) as [prec [name [k [_ [_ [En [Ek [Hnone [Hnew Hframe]]]]]]]]].
+    split; [eapply named_frame; eauto|]. split; [|exact Hu2].
+    intros k' nr. cbn [set_names s_names]. destruct (string_dec k' k) as [->|Hne].
+    + rewrite Hnew. intros E. injection E as <-. cbn [r_name]. apply HU. exact En.
+    + rewrite Hframe by exact Hne. apply Hu1.
+Qed.
+
+Lemma modify_keeps : forall cfg U s signer name owner restr ns,
+  inv0 cfg s -> modify idh (c_params cfg) (s_names s) signer name owner restr = Some ns ->
+  keeps cfg U s (set_names s ns) (forall n, norm cfg name = Some n -> In n U).
+Proof.
+  intros cfg U s signer name owner restr ns [Hc Hn Hnorm] H. split.
+  - constructor; [apply inv_core_set_names; exact Hc| |exact Hnorm].
+    unfold ninv. cbn [set_names s_names].
+    apply (NameProofs.exec_inv idh (c_params cfg) (s_names s) (OpModify signer name owner restr)); assumption.
+  - intros Hcf HU [Hnamed [Hu1 Hu2]].
+    destruct (modify_spec _ _ _ _ _ _ _ _ H) as [ex [n [k [_ [_ [En [Ek [Hnew Hframe]]]]]]]].
+    apply name_key_idh in Ek. split; [|split; [|exact Hu2]].
+    + intros r Hr. cbn [set_names s_recs s_names] in *.
+      destruct (Hnamed r Hr) as [nr [Hg E]]. apply get_record_key in Hg. destruct Hg as [k0 [Ek0 Hk0]].
+      destruct (string_dec k0 k) as [->|Hne].
+      * eexists. split; [apply get_record_key; exists k; split; [exact Ek0|exact Hnew]|].
+        cbn [r_name]. apply Hcf; [apply HU; exact En|apply Hu2; exact Hr|congruence].
+      * exists nr. split; [|exact E]. apply get_record_key. exists k0. split; [exact Ek0|].
+        rewrite Hframe by exact Hne. exact Hk0.
+    + intros k' nr. cbn [set_names s_names]. destruct (string_dec k' k) as [->|Hne].
+      * rewrite Hnew. intros E. injection E as <-. cbn [r_name]. apply HU. exact En.
+      * rewrite Hframe by exact Hne. apply Hu1.
+Qed.
+
+Lemma delete_name_keeps : forall cfg U s name signer ns n s',
+  inv0 cfg s -> delete idh (c_params cfg) (s_names s) name signer = Some ns -> norm cfg name = Some n ->
+  purge_attribute cfg (set_names s ns) signer n = Some s' ->
+  keeps cfg U s s' (forall n, norm cfg name = Some n -> In n U).
+Proof.
+  intros cfg U s name signer ns n s' [Hc Hn Hnorm] H En Hp.
+  assert (Hi1 : inv0 cfg (set_names s ns)).
+  { constructor; [apply inv_core_set_names; exact Hc| |exact Hnorm].
+    unfold ninv. cbn [set_names s_names].
+    apply (NameProofs.exec_inv idh (c_params cfg) (s_names s) (OpDelete name signer)); assumption. }
+  destruct (purge_keeps cfg U _ _ _ _ True Hi1 Hp) as [K1 _]. split; [exact K1|].
+  intros Hcf HU [Hnamed [Hu1 Hu2]].
+  destruct (NameProofs.delete_spec _ _ _ _ _ _ H) as [ex [n' [k [En' [Ek [Hex [_ [Hgone Hframe]]]]]]]].
+  unfold norm in En. rewrite En in En'. injection En' as <-. apply name_key_idh in Ek.
+  destruct (purge_removes _ _ _ _ _ (i_core _ _ Hi1) Hp) as [_ [[Es _] [_ I3]]].
+  cbn [set_names s_names s_recs] in Es, I3.
+  split; [|split].
+  - intros r Hr. apply I3 in Hr. destruct Hr as [Hr Hne]. rewrite Es.
+    destruct (Hnamed r Hr) as [nr [Hg E]]. apply get_record_key in Hg. destruct Hg as [k0 [Ek0 Hk0]].
+    destruct (string_dec k0 k) as [->|Hk].
+    + exfalso. apply Hne. f_equal. apply Hcf; [apply Hu2; exact Hr|apply HU; exact En|congruence].
+    + exists nr. split; [|exact E]. apply get_record_key. exists k0. split; [exact Ek0|].
+      rewrite Hframe by exact Hk. exact Hk0.
+  - intros k' nr. rewrite Es. destruct (string_dec k' k) as [->|Hne].
+    + rewrite Hgone. discriminate.
+    + rewrite Hframe by exact Hne. apply Hu1.
+  - intros r Hr. apply I3 in Hr. apply Hu2. tauto.
+Qed.
+
 (** * Every operation preserves the invariants *)
-Lemma inv_core_set_owner : forall s f, inv_core s -> inv_core (set_owner s f).
-Proof. intros s f H. apply (inv_core_same_store s); auto. Qed.
-
-Lemma inv_core_set_now : forall s t, inv_core s -> inv_core (set_now s t).
-Proof. intros s t H. apply (inv_core_same_store s); auto. Qed.
-
-Lemma resolves_owner : forall s n c, resolves s n c = true -> s_owner s n = Some c.
+Lemma exec_keeps : forall cfg U s o s',
+  inv0 cfg s -> exec cfg s o = Some s' -> keeps cfg U s s' (op_in cfg U o).
 Proof.
-  intros s n c H. unfold resolves in H. destruct (s_owner s n); [|discriminate].
-  apply Z.eqb_eq in H. subst. reflexivity.
+  intros cfg U s o s' Hi E. destruct o; cbn [exec op_in] in *.
+  - destruct (bind idh (c_params cfg) (s_names s) parent signer child owner restr) as [ns|] eqn:B; [|discriminate].
+    injection E as <-. eapply bind_keeps; eauto.
+  - destruct (modify idh (c_params cfg) (s_names s) signer name owner restr) as [ns|] eqn:B; [|discriminate].
+    injection E as <-. eapply modify_keeps; eauto.
+  - destruct (delete idh (c_params cfg) (s_names s) name signer) as [ns|] eqn:B; [|discriminate].
+    destruct (norm cfg name) as [n|] eqn:En; [|discriminate]. unfold keeps. rewrite <- En.
+    eapply delete_name_keeps; eauto.
+  - eapply set_attribute_keeps; eauto.
+  - eapply update_attribute_keeps; eauto.
+  - eapply update_expiration_keeps; eauto.
+  - eapply delete_k_keeps; eauto. apply delete_msg_spec. exact E.
+  - eapply delete_k_keeps; eauto. apply delete_msg_spec. exact E.
+  - eapply purge_keeps; eauto.
+  - eapply set_account_data_keeps; eauto.
+  - destruct (N.eqb auth gov); [|discriminate]. injection E as <-.
+    apply store_op_keeps; auto.
+    + apply (inv_core_same_store s); auto. apply Hi.
+    + intros r Hr. left. apply old_name. exact Hr.
+  - destruct (dt <? 0); [discriminate|]. injection E as <-.
+    destruct (sweep_facts cfg limit (set_now s (s_now s + dt))) as [I1 [I2 [[I3 _] _]]].
+    { apply (inv_core_same_store s); auto. apply Hi. }
+    apply store_op_keeps; auto.
+    intros r Hr. left. apply old_name. apply I2 in Hr. exact Hr.
 Qed.
 
-Lemma may_remove_owner : forall s c n,
-  may_remove s c n = true -> s_owner s n <> None -> s_owner s n = Some c.
+Lemma genesis_ninv : forall cfg, NameProofs.inv idh (c_params cfg) (genesis_names cfg).
 Proof.
-  intros s c n H Hne. unfold may_remove in H. apply andb_true_iff in H. destruct H as [_ H].
-  apply orb_true_iff in H. destruct H as [H|H].
-  - apply resolves_owner. exact H.
-  - unfold name_exists in H. destruct (s_owner s n); [discriminate|contradiction].
+  intros cfg. unfold genesis_names.
+  assert (G : forall l ns, NameProofs.inv idh (c_params cfg) ns ->
+            NameProofs.inv idh (c_params cfg)
+              (fold_left (fun ns x => let '(n, o, r) := x in
+                            match set_name_record idh (c_params cfg) ns n o r with
+                            | Some ns' => ns' | None => ns end) l ns)).
+  { induction l as [|[[n o] r] t IH]; intros ns Hns; cbn [fold_left]; [exact Hns|].
+    apply IH. destruct (set_name_record idh (c_params cfg) ns n o r) eqn:E; [|exact Hns].
+    eapply set_name_record_inv; eauto. }
+  apply G. apply inv_init.
 Qed.
 
-Lemma upd_owner_some : forall f n o n', f n' <> None -> upd_owner f n (Some o) n' <> None.
-Proof. intros. unfold upd_owner. destruct (n' =? n); [discriminate|auto]. Qed.
-
-Lemma inv_update_exp : forall s cur e,
-  inv s -> In cur (s_recs s) ->
-  inv (set_store s (with_exp cur e :: remove_key (akey cur) (s_recs s)) (s_cnt s)
-                 (q_add (q_del (s_queue s) cur) (with_exp cur e))).
+Lemma inv0_init : forall cfg t0, inv0 cfg (init cfg t0).
 Proof.
-  intros s cur e [[Hnd Hc Hq] Hn] Hin. split.
-  - constructor; cbn [set_store s_recs s_cnt s_queue].
-    + change (akey cur) with (akey (with_exp cur e)). apply nodup_put. exact Hnd.
-    + intros n a. rewrite count_cons. change (cmatch n a (with_exp cur e)) with (cmatch n a cur).
-      pose proof (Hc n a) as Hna. pose proof (count_remove_le n a (akey cur) (s_recs s)) as Hle.
-      destruct (cmatch n a cur) eqn:M; [|lia].
-      apply cmatch_pair in M. inversion M; subst n a.
-      pose proof (count_remove_lt cur (s_recs s) Hin). lia.
-    + intros x e' [<-|Hx] He'.
-      * apply In_q_add_self. exact He'.
-      * apply In_remove_key in Hx. destruct Hx as [Hx Hne].
-        apply In_q_add. apply In_q_del_other; eauto.
-  - intros x. cbn [set_store s_recs s_owner]. intros [<-|Hx].
-    + change (a_name (with_exp cur e)) with (a_name cur). auto.
-    + apply In_remove_key in Hx. apply Hn. tauto.
+  intros cfg t0. constructor.
+  - apply inv_core_init.
+  - unfold ninv. cbn [init s_names]. apply genesis_ninv.
+  - intros r [].
 Qed.
 
-Lemma exec_inv : forall s o s', inv s -> exec s o = Some s' -> inv s'.
+Lemma step_inv0 : forall cfg s o, inv0 cfg s -> inv0 cfg (fst (step cfg s o)).
 Proof.
-  intros s o s' [Hc Hn] E. destruct o; cbn [exec] in E.
-  - (* bind *)
-    destruct (name_exists s n); inversion E; subst. split.
-    + apply inv_core_set_owner. exact Hc.
-    + intros r Hr. cbn [set_owner s_owner]. apply upd_owner_some. apply Hn. exact Hr.
-  - (* modify *)
-    destruct (s_owner s n) as [cur|]; [|discriminate].
-    destruct ((auth =? gov) || (auth =? cur)); inversion E; subst. split.
-    + apply inv_core_set_owner. exact Hc.
-    + intros r Hr. cbn [set_owner s_owner]. apply upd_owner_some. apply Hn. exact Hr.
-  - (* delete name *)
-    destruct (resolves s n c); [|discriminate]. unfold purge_attribute in E.
-    destruct (may_remove _ c n); inversion E; subst. clear E.
-    pose proof (del_filter false
-                (fun r => (a_name r =? n) && (0 <? s_cnt (set_owner s (upd_owner (s_owner s) n None)) n (a_acct r)))
-                (set_owner s (upd_owner (s_owner s) n None))
-                (inv_core_set_owner _ _ Hc)) as I. cbn zeta in I.
-    cbn [set_owner s_recs s_cnt s_owner] in I. destruct I as [I1 [I2 [I3 _]]].
-    split; [exact I1|]. intros r Hr. apply I2 in Hr. destruct Hr as [Hr Hp].
-    rewrite I3. unfold upd_owner.
-    destruct (a_name r =? n) eqn:En.
-    + exfalso. apply Z.eqb_eq in En. subst n. cbn [andb] in Hp.
-      pose proof (count_pos_in r _ Hr). pose proof (ic_cnt _ Hc (a_name r) (a_acct r)). lia.
-    + apply Hn. exact Hr.
-  - (* add *)
-    unfold set_attribute in E. match type of E with (if ?b then _ else _) = _ => destruct b eqn:C end;
-      inversion E; subst. clear E.
-    apply andb_true_iff in C. destruct C as [_ C]. apply resolves_owner in C. cbn [a_name] in C. split.
-    + apply inv_core_put. exact Hc.
-    + intros r. cbn [put set_store s_recs s_owner]. intros [<-|Hr].
-      * cbn [a_name]. congruence.
-      * apply In_remove_key in Hr. apply Hn. tauto.
-  - (* update *)
-    unfold update_attribute in E. match type of E with (if ?b then _ else _) = _ => destruct b eqn:C end;
-      [|discriminate].
-    destruct (sp_inner sp); [discriminate|].
-    destruct (find_rec (a, n, ov) (s_recs s)) as [cur|] eqn:F; [|discriminate].
-    destruct (a_type cur =? oty); inversion E; subst. clear E.
-    apply find_rec_some in F. destruct F as [Hcur Hk].
-    apply andb_true_iff in C. destruct C as [_ C]. apply resolves_owner in C. split.
-    + apply inv_core_put. apply inv_core_del_rec; auto.
-    + intros r. cbn [put del_rec set_store s_recs s_owner]. intros [<-|Hr].
-      * cbn [a_name]. congruence.
-      * apply In_remove_key in Hr. destruct Hr as [Hr _]. apply In_remove_key in Hr. apply Hn. tauto.
-  - (* update expiration *)
-    unfold update_expiration in E. match type of E with (if ?b then _ else _) = _ => destruct b eqn:C end;
-      [|discriminate].
-    destruct (find_rec (a, n, v) (s_recs s)) as [cur|] eqn:F; inversion E; subst. clear E.
-    apply find_rec_some in F. destruct F as [Hcur Hk].
-    apply inv_update_exp; [split; auto|exact Hcur].
-  - (* delete *)
-    unfold delete_attribute in E. destruct (may_remove_raw s c n sp); [|discriminate].
-    match type of E with context [filter ?p (s_recs s)] =>
-      destruct (del_filter true p s Hc) as [I1 [I2 [I3 _]]]; destruct (filter p (s_recs s)) end;
-      [discriminate|]. injection E as <-. cbn [fold_left] in I1, I2, I3.
-    split; [exact I1|]. intros r Hr. apply I2 in Hr. rewrite I3. apply Hn. tauto.
-  - (* delete distinct *)
-    unfold delete_attribute in E. destruct (may_remove_raw s c n sp); [|discriminate].
-    match type of E with context [filter ?p (s_recs s)] =>
-      destruct (del_filter true p s Hc) as [I1 [I2 [I3 _]]]; destruct (filter p (s_recs s)) end;
-      [discriminate|]. injection E as <-. cbn [fold_left] in I1, I2, I3.
-    split; [exact I1|]. intros r Hr. apply I2 in Hr. rewrite I3. apply Hn. tauto.
-  - (* purge *)
-    unfold purge_attribute in E. destruct (may_remove s c n); inversion E; subst. clear E.
-    match goal with |- context [filter ?p (s_recs s)] =>
-      destruct (del_filter false p s Hc) as [I1 [I2 [I3 _]]] end.
-    split; [exact I1|]. intros r Hr. apply I2 in Hr. rewrite I3. apply Hn. tauto.
-  - (* block *)
-    destruct (dt <? 0); inversion E; subst. clear E. unfold sweep.
-    destruct (sweep_fold (due (s_now (set_now s (s_now s + dt))) (s_queue (set_now s (s_now s + dt))))
-                (set_now s (s_now s + dt)) (inv_core_set_now _ _ Hc)) as [I1 [I2 [I3 _]]].
-    split; [exact I1|]. intros r Hr. rewrite I3. apply I2 in Hr. cbn [set_now s_owner s_recs] in *.
-    apply Hn. exact Hr.
+  intros cfg s o H. unfold step. destruct (exec cfg s o) eqn:E; cbn [fst]; [|exact H].
+  apply (exec_keeps cfg [] s o s0 H E).
 Qed.
 
-Lemma step_inv : forall s o, inv s -> inv (fst (step s o)).
+Lemma run_from_inv0 : forall cfg ops s, inv0 cfg s -> inv0 cfg (run_from cfg s ops).
 Proof.
-  intros s o H. unfold step. destruct (exec s o) eqn:E; cbn [fst]; [eapply exec_inv; eauto|exact H].
+  intros cfg ops. induction ops as [|o t IH]; intros s H; cbn [run_from fold_left]; [exact H|].
+  apply IH. apply step_inv0. exact H.
 Qed.
 
-Lemma run_from_inv : forall ops s, inv s -> inv (run_from s ops).
+Lemma run_inv0 : forall cfg t0 ops, inv0 cfg (run cfg t0 ops).
+Proof. intros. apply run_from_inv0. apply inv0_init. Qed.
+
+(** the universe hypothesis for the initial name store *)
+Definition genesis_in (cfg : config) (U : list string) : Prop :=
+  forall k nr, rget (genesis_names cfg) k = Some nr -> In (r_name nr) U.
+
+Lemma inv1_init : forall cfg U t0, genesis_in cfg U -> inv1 U (init cfg t0).
 Proof.
-  induction ops as [|o t IH]; intros s H; cbn [run_from fold_left]; [exact H|].
-  apply IH. apply step_inv. exact H.
+  intros cfg U t0 Hg. split; [intros r []|]. split; [exact Hg|intros r []].
 Qed.
 
-Lemma run_inv : forall t0 accts ops, inv (run t0 accts ops).
+Lemma step_inv1 : forall cfg U s o,
+  coll_free U -> op_in cfg U o -> inv0 cfg s -> inv1 U s -> inv1 U (fst (step cfg s o)).
 Proof.
-  intros. apply run_from_inv. split; [apply inv_core_init|]. intros r [].
+  intros cfg U s o Hcf Ho H0 H1. unfold step. destruct (exec cfg s o) eqn:E; cbn [fst]; [|exact H1].
+  apply (exec_keeps cfg U s o s0 H0 E); assumption.
 Qed.
 
-(** * The property lemmas *)
+Lemma run_from_inv1 : forall cfg U ops s,
+  coll_free U -> Forall (op_in cfg U) ops -> inv0 cfg s -> inv1 U s -> inv1 U (run_from cfg s ops).
+Proof.
+  intros cfg U ops. induction ops as [|o t IH]; intros s Hcf Ho H0 H1; cbn [run_from fold_left]; [exact H1|].
+  inversion Ho as [|? ? Ho1 Ho2]; subst.
+  apply IH; auto; [apply step_inv0; exact H0|apply step_inv1; auto].
+Qed.
+
+Lemma run_inv1 : forall cfg U t0 ops,
+  coll_free U -> genesis_in cfg U -> Forall (op_in cfg U) ops -> inv1 U (run cfg t0 ops).
+Proof.
+  intros. apply run_from_inv1; auto; [apply inv0_init|apply inv1_init; assumption].
+Qed.
+
+(** * Part 4: the property lemmas *)
+Definition absent (r : attr) (s : state) : Prop := forall r', In r' (s_recs s) -> akey r' <> akey r.
+
 Lemma filter_none : forall {A} (p : A -> bool) l, (forall x, In x l -> p x = false) -> filter p l = [].
 Proof.
   intros A p l. induction l as [|x t IH]; intros H; cbn [filter]; [reflexivity|].
   rewrite (H x (or_introl eq_refl)). apply IH. intros y Hy. apply H. right. exact Hy.
 Qed.
 
-(** Who may write under a name: the accepted operation was issued by the name's current owner.
-    PurgeAttribute (the keeper entry point, reached on-chain only from MsgDeleteName) also
-    accepts any caller with an account when the name does not exist; then it changes nothing. *)
-Definition writes_as_owner (s : state) (o : op) : Prop :=
+Lemma owner_of_names : forall s s' n, s_names s' = s_names s -> owner_of s' n = owner_of s n.
+Proof. intros s s' n E. unfold owner_of. rewrite E. reflexivity. Qed.
+
+Lemma nexists_get_record : forall s n nr, get_record idh (s_names s) n = Some nr -> nexists s n = true.
+Proof.
+  intros s n nr H. unfold nexists, name_exists. unfold get_record in H.
+  destruct (name_key idh n) as [k|]; [|discriminate]. unfold ahas. unfold rget in H. rewrite H. reflexivity.
+Qed.
+
+Lemma not_nexists_get_record : forall s n, nexists s n = false -> get_record idh (s_names s) n = None.
+Proof.
+  intros s n H. destruct (get_record idh (s_names s) n) eqn:G; [|reflexivity].
+  rewrite (nexists_get_record _ _ _ G) in H. discriminate.
+Qed.
+
+Lemma normal_fixed : forall cfg s r, normal cfg s -> In r (s_recs s) -> norm cfg (a_name r) = Some (a_name r).
+Proof. intros cfg s r Hn Hr. destruct (Hn r Hr) as [raw H]. exact (normalize_idem _ _ _ H). Qed.
+
+(** the gate of DeleteAttribute / PurgeAttribute passed for a name that some attribute carries:
+    the caller is that name's owner *)
+Lemma may_remove_owner : forall cfg s c r,
+  named s -> In r (s_recs s) -> may_remove cfg s c (a_name r) = true -> owner_of s (a_name r) = Some c.
+Proof.
+  intros cfg s c r Hnamed Hr H. destruct (Hnamed r Hr) as [nr [Hg E]].
+  unfold may_remove in H. apply andb_true_iff in H. destruct H as [_ H].
+  rewrite (nexists_get_record _ _ _ Hg) in H. cbn [negb] in H. rewrite orb_false_r in H.
+  destruct (resolves_record _ _ _ H) as [nr' [Hg' <-]]. rewrite Hg in Hg'. injection Hg' as <-.
+  apply owner_of_exact; assumption.
+Qed.
+
+Lemma delete_matches_fields : forall a name ov r, delete_matches a name ov r = true ->
+  a_acct r = a /\ a_name r = name /\ match ov with Some v => a_val r = v | None => True end.
+Proof.
+  intros a name ov r H. unfold delete_matches in H.
+  apply andb_true_iff in H. destruct H as [H Hv]. apply andb_true_iff in H. destruct H as [H Hn].
+  apply andb_true_iff in H. destruct H as [Ha _].
+  apply N.eqb_eq in Ha. apply String.eqb_eq in Hn. repeat split; auto.
+  destruct ov; [apply Z.eqb_eq; exact Hv|exact I].
+Qed.
+
+Lemma delete_k_owner : forall cfg s c a name ov s',
+  named s -> delete_attribute_k cfg s c a name ov = Some s' ->
+  owner_of s name = Some c /\ exists r, In r (s_recs s) /\ a_name r = name.
+Proof.
+  intros cfg s c a name ov s' Hnamed H. destruct (delete_k_spec _ _ _ _ _ _ _ H) as [Hg [[r [Hr Hm]] _]].
+  destruct (delete_matches_fields _ _ _ _ Hm) as [_ [En _]]. subst name.
+  split; [eapply may_remove_owner; eauto|exists r; auto].
+Qed.
+
+(** Who may write under a name.  Names are identified by their normal form. *)
+Definition writes_as_owner (cfg : config) (s : state) (o : op) : Prop :=
   match o with
-  | OAdd c _ n _ _ _ _ | OUpdate c _ n _ _ _ _ _ | OUpdateExp c _ n _ _ _
-  | ODelete c _ n _ | ODeleteDistinct c _ n _ _ | ODeleteName c n => s_owner s n = Some c
-  | OPurge c n => s_owner s n = Some c \/ (s_owner s n = None /\ fst (step s o) = s)
+  | OAdd c _ name _ _ _ | OUpdate c _ name _ _ _ _ | OUpdateExp c _ name _ _
+  | ODelete c _ name | ODeleteDistinct c _ name _ | ODeleteName name c =>
+      exists n, norm cfg name = Some n /\ owner_of s n = Some c
+  | OPurge c name =>
+      norm cfg name = Some name ->
+      owner_of s name = Some c \/ (get_record idh (s_names s) name = None /\ fst (step cfg s o) = s)
+  | OSetAccountData _ _ _ =>
+      owner_of s account_data_name = Some mod_addr \/ fst (step cfg s o) = s
   | _ => True
   end.
 
-Lemma delete_owner : forall s c a n ov sp s',
-  named s -> delete_attribute s c a n ov sp = Some s' -> s_owner s n = Some c.
+Lemma only_owner_step : forall cfg U s o,
+  coll_free U -> op_in cfg U o -> inv0 cfg s -> inv1 U s ->
+  snd (step cfg s o) = true -> writes_as_owner cfg s o.
 Proof.
-  intros s c a n ov sp s' Hn E. unfold delete_attribute in E.
-  destruct (may_remove_raw s c n sp) eqn:M; [|discriminate].
-  match type of E with context [filter ?p (s_recs s)] => destruct (filter p (s_recs s)) as [|x t] eqn:Fl end;
-    [discriminate|].
-  assert (Hx : In x (x :: t)) by (left; reflexivity). rewrite <- Fl in Hx. apply filter_In in Hx.
-  destruct Hx as [Hx Hp]. apply andb_true_iff in Hp. destruct Hp as [Hp Hsp].
-  apply andb_true_iff in Hp. destruct Hp as [Hp _].
-  apply andb_true_iff in Hp. destruct Hp as [_ Hp]. apply Z.eqb_eq in Hp.
-  (* only the canonical spelling matches a stored name, and then the gate is the ordinary one *)
-  apply andb_true_iff in Hsp. destruct Hsp as [_ Hsp]. apply Z.eqb_eq in Hsp. subst sp.
-  change (may_remove_raw s c n 0) with (may_remove s c n) in M.
-  apply may_remove_owner; auto. rewrite <- Hp. apply Hn. exact Hx.
-Qed.
-
-Lemma only_owner_step : forall s o, inv s -> snd (step s o) = true -> writes_as_owner s o.
-Proof.
-  intros s o [Hc Hn] H. unfold step in H. destruct (exec s o) as [s'|] eqn:E; [|discriminate]. clear H.
-  destruct o; cbn [writes_as_owner]; auto; cbn [exec] in E.
-  - destruct (resolves s n c) eqn:R; [|discriminate]. apply resolves_owner. exact R.
-  - unfold set_attribute in E. match type of E with (if ?b then _ else _) = _ => destruct b eqn:C end;
-      [|discriminate]. apply andb_true_iff in C. destruct C as [_ C]. apply resolves_owner in C. exact C.
-  - unfold update_attribute in E. match type of E with (if ?b then _ else _) = _ => destruct b eqn:C end;
-      [|discriminate]. apply andb_true_iff in C. destruct C as [_ C]. apply resolves_owner in C. exact C.
-  - unfold update_expiration in E. match type of E with (if ?b then _ else _) = _ => destruct b eqn:C end;
-      [|discriminate]. apply andb_true_iff in C. destruct C as [_ C]. apply resolves_owner in C. exact C.
-  - eapply delete_owner; eauto.
-  - eapply delete_owner; eauto.
-  - unfold purge_attribute in E. destruct (may_remove s c n) eqn:M; [|discriminate].
-    destruct (s_owner s n) as [ow|] eqn:O.
-    + left. rewrite <- O. apply may_remove_owner; auto. congruence.
-    + right. split; [reflexivity|]. unfold step. cbn [exec]. unfold purge_attribute. rewrite M.
-      rewrite filter_none; [reflexivity|]. intros x Hx.
-      destruct (a_name x =? n) eqn:En; [|reflexivity]. apply Z.eqb_eq in En. subst n.
-      exfalso. apply (Hn x Hx). exact O.
+  intros cfg U s o Hcf Ho [Hc Hn Hnorm] [Hnamed Hu] H.
+  unfold step in H. destruct (exec cfg s o) as [s'|] eqn:E; [|discriminate]. clear H.
+  destruct o; cbn [writes_as_owner op_in]; auto; cbn [exec op_in] in E, Ho.
+  - (* delete name *)
+    destruct (delete idh (c_params cfg) (s_names s) name signer) as [ns|] eqn:B; [|discriminate].
+    destruct (NameProofs.delete_spec _ _ _ _ _ _ B) as [ex [n [k [En [Ek [Hex [Ea _]]]]]]].
+    exists n. split; [exact En|]. apply name_key_idh in Ek.
+    assert (Hg : get_record idh (s_names s) n = Some ex) by (apply get_record_key; eauto).
+    rewrite <- Ea. apply owner_of_exact; [exact Hg|]. eapply exact_record; eauto.
+  - destruct (set_attribute_spec _ _ _ _ _ _ _ _ _ E) as [n [En [Hres _]]].
+    exists n. split; [exact En|]. eapply resolves_owner; eauto.
+  - destruct (update_attribute_spec _ _ _ _ _ _ _ _ _ _ E) as [n [cur [En [Hres _]]]].
+    exists n. split; [exact En|]. eapply resolves_owner; eauto.
+  - destruct (update_expiration_spec _ _ _ _ _ _ _ _ E) as [n [cur [En [Hres _]]]].
+    exists n. split; [exact En|]. eapply resolves_owner; eauto.
+  - apply delete_msg_spec in E. destruct (delete_k_owner _ _ _ _ _ _ _ Hnamed E) as [Ho' [r [Hr <-]]].
+    exists (a_name r). split; [eapply normal_fixed; eauto|exact Ho'].
+  - apply delete_msg_spec in E. destruct (delete_k_owner _ _ _ _ _ _ _ Hnamed E) as [Ho' [r [Hr <-]]].
+    exists (a_name r). split; [eapply normal_fixed; eauto|exact Ho'].
+  - (* purge *)
+    intros Hnormd. destruct (purge_spec _ _ _ _ _ E) as [Hg Es].
+    unfold may_remove in Hg. apply andb_true_iff in Hg. destruct Hg as [_ Hg].
+    apply orb_true_iff in Hg. destruct Hg as [Hg|Hg].
+    + left. eapply resolves_owner; eauto.
+    + right. apply negb_true_iff in Hg. apply not_nexists_get_record in Hg. split; [exact Hg|].
+      unfold step. cbn [exec]. rewrite E. cbn [fst]. rewrite Es.
+      rewrite filter_none; [reflexivity|]. intros x Hx. unfold purge_matches.
+      destruct (String.eqb_spec (ank (a_name x)) (ank name)) as [Ek|]; [|reflexivity]. exfalso.
+      assert (a_name x = name).
+      { destruct (Hnorm x Hx) as [raw Hraw]. eapply ank_inj_normalised; eauto. }
+      subst name. destruct (Hnamed x Hx) as [nr [Hg' _]]. congruence.
+  - (* account data *)
+    destruct (set_account_data_spec _ _ _ _ _ _ E) as [s1 [Hd Hs]].
+    destruct Hd as [->|Hd].
+    + destruct Hs as [->|Hs]; [right; unfold step; cbn [exec]; rewrite E; reflexivity|left].
+      destruct (set_attribute_spec _ _ _ _ _ _ _ _ _ Hs) as [n [En [Hres _]]].
+      rewrite (norm_account_data _ _ En) in *. eapply resolves_owner; eauto.
+    + left. apply (delete_k_owner _ _ _ _ _ _ _ Hnamed Hd).
 Qed.
 
 (** When may a present attribute be absent after a step. *)
-Definition justified (s : state) (o : op) (r : attr) : Prop :=
+Definition justified (cfg : config) (s : state) (o : op) (r : attr) : Prop :=
   match o with
-  | ODelete c a n _ => a_acct r = a /\ a_name r = n /\ s_owner s n = Some c
-  | ODeleteDistinct c a n v _ => a_acct r = a /\ a_name r = n /\ a_val r = v /\ s_owner s n = Some c
-  | OUpdate c a n ov _ _ _ _ => akey r = (a, n, ov) /\ s_owner s n = Some c
-  | ODeleteName c n | OPurge c n => a_name r = n /\ s_owner s n = Some c
-  | OBlock dt => exists e, a_exp r = Some e /\ e < s_now s + dt
+  | ODelete c a name => a_acct r = a /\ a_name r = name /\ owner_of s name = Some c
+  | ODeleteDistinct c a name v => a_acct r = a /\ a_name r = name /\ a_val r = v /\ owner_of s name = Some c
+  | OUpdate c a name ov _ _ _ =>
+      akey r = (a, ank name, ov) /\ norm cfg name = Some (a_name r) /\ owner_of s (a_name r) = Some c
+  | ODeleteName name c => norm cfg name = Some (a_name r) /\ owner_of s (a_name r) = Some c
+  | OPurge c name =>
+      ank (a_name r) = ank name /\
+      (norm cfg name = Some name -> a_name r = name /\ owner_of s name = Some c)
+  | OSetAccountData _ a _ =>
+      a_acct r = a /\ a_name r = account_data_name /\ owner_of s account_data_name = Some mod_addr
+  | OBlock dt _ => exists e, a_exp r = Some e /\ e < s_now s + dt
   | _ => False
   end.
-
-Definition absent (r : attr) (s : state) : Prop := forall r', In r' (s_recs s) -> akey r' <> akey r.
 
 Lemma put_keeps : forall s x r, In r (s_recs s) -> ~ absent r (put s x).
 Proof.
@@ -630,153 +1280,350 @@ Proof.
   - apply key_eqb_neq in K. apply (Ha r); [|reflexivity]. right. apply In_remove_key. auto.
 Qed.
 
-Lemma delete_justified : forall s c a n ov sp s' r,
-  inv s -> delete_attribute s c a n ov sp = Some s' -> In r (s_recs s) -> absent r s' ->
-  a_acct r = a /\ a_name r = n /\ match ov with Some v => a_val r = v | None => True end.
-Proof.
-  intros s c a n ov sp s' r [Hc Hn] E Hr Ha. unfold delete_attribute in E.
-  destruct (may_remove_raw s c n sp); [|discriminate].
-  match type of E with context [filter ?p (s_recs s)] =>
-    destruct (del_filter true p s Hc) as [_ [I2 _]]; destruct (filter p (s_recs s)); [discriminate|];
-    destruct (p r) eqn:P end.
-  - apply andb_true_iff in P. destruct P as [P _].
-    apply andb_true_iff in P. destruct P as [P Pv]. apply andb_true_iff in P. destruct P as [Pa Pn].
-    apply Z.eqb_eq in Pa, Pn. repeat split; auto. destruct ov; auto. apply Z.eqb_eq. exact Pv.
-  - exfalso. injection E as <-. cbn [fold_left] in I2. apply (Ha r); [|reflexivity]. apply I2. auto.
-Qed.
+Lemma present_not_absent : forall r s, In r (s_recs s) -> ~ absent r s.
+Proof. intros r s H Ha. exact (Ha r H eq_refl). Qed.
 
-Lemma purge_justified : forall s c n s' r,
-  inv_core s -> purge_attribute s c n = Some s' -> In r (s_recs s) -> absent r s' -> a_name r = n.
+Lemma disappears_step : forall cfg U s o r,
+  coll_free U -> op_in cfg U o -> inv0 cfg s -> inv1 U s ->
+  In r (s_recs s) -> absent r (fst (step cfg s o)) -> justified cfg s o r.
 Proof.
-  intros s c n s' r Hc E Hr Ha. unfold purge_attribute in E.
-  destruct (may_remove s c n); [|discriminate]. injection E as <-.
-  match type of Ha with context [filter ?p (s_recs s)] =>
-    destruct (del_filter false p s Hc) as [_ [I2 _]]; destruct (p r) eqn:P end.
-  - apply andb_true_iff in P. destruct P as [P _]. apply Z.eqb_eq. exact P.
-  - exfalso. apply (Ha r); [|reflexivity]. apply I2. auto.
-Qed.
-
-Lemma disappears_step : forall s o r,
-  inv s -> In r (s_recs s) -> absent r (fst (step s o)) -> justified s o r.
-Proof.
-  intros s o r Hinv Hr Ha. pose proof Hinv as [Hc Hn].
-  pose proof (only_owner_step s o Hinv) as Hown.
-  unfold step in *. destruct (exec s o) as [s'|] eqn:E; cbn [fst snd] in *;
-    [|exfalso; apply (Ha r Hr); reflexivity].
+  intros cfg U s o r Hcf Ho Hi0 Hi1 Hr Ha. pose proof Hi0 as [Hc Hn Hnorm]. pose proof Hi1 as [Hnamed Hu].
+  pose proof (only_owner_step cfg U s o Hcf Ho Hi0 Hi1) as Hown.
+  unfold step in *. destruct (exec cfg s o) as [s'|] eqn:E; cbn [fst snd] in *;
+    [|exfalso; exact (present_not_absent _ _ Hr Ha)].
   specialize (Hown eq_refl).
-  destruct o; cbn [justified writes_as_owner] in *; cbn [exec] in E.
-  - destruct (name_exists s n); inversion E; subst. apply (Ha r Hr). reflexivity.
-  - destruct (s_owner s n) as [cur|]; [|discriminate].
-    destruct ((auth =? gov) || (auth =? cur)); inversion E; subst. apply (Ha r Hr). reflexivity.
-  - destruct (resolves s n c); [|discriminate]. split; [|exact Hown].
-    eapply (purge_justified (set_owner s (upd_owner (s_owner s) n None))); eauto.
-    apply inv_core_set_owner. exact Hc.
-  - unfold set_attribute in E. match type of E with (if ?b then _ else _) = _ => destruct b end;
-      inversion E; subst. eapply put_keeps; eauto.
-  - unfold update_attribute in E. match type of E with (if ?b then _ else _) = _ => destruct b end;
-      [|discriminate].
-    destruct (sp_inner sp); [discriminate|].
-    destruct (find_rec (a, n, ov) (s_recs s)) as [cur|] eqn:F; [|discriminate].
-    destruct (a_type cur =? oty); inversion E; subst. clear E.
-    apply find_rec_some in F. destruct F as [Hcur Hk].
+  destruct o; cbn [justified writes_as_owner op_in] in *; cbn [exec] in E.
+  - destruct (bind _ _ _ _ _ _ _ _); [|discriminate]. injection E as <-. exact (present_not_absent _ _ Hr Ha).
+  - destruct (modify _ _ _ _ _ _ _); [|discriminate]. injection E as <-. exact (present_not_absent _ _ Hr Ha).
+  - (* delete name *)
+    destruct (delete idh (c_params cfg) (s_names s) name signer) as [ns|] eqn:B; [|discriminate].
+    destruct (norm cfg name) as [n|] eqn:En; [|discriminate].
+    destruct (purge_removes _ _ _ _ _ (inv_core_set_names s ns Hc) E) as [_ [_ [_ I3]]].
+    cbn [set_names s_recs] in I3.
+    assert (Ek : ank (a_name r) = ank n).
+    { destruct (string_dec (ank (a_name r)) (ank n)) as [Ek|Hne]; [exact Ek|].
+      exfalso. apply (present_not_absent r s'); [apply I3; auto|exact Ha]. }
+    assert (a_name r = n) by (destruct (Hnorm r Hr) as [raw Hraw]; eapply ank_inj_normalised; eauto).
+    subst n. destruct Hown as [n' [En' Ho']]. injection En' as <-. auto.
+  - destruct (set_attribute_spec _ _ _ _ _ _ _ _ _ E) as [n [_ [_ [_ ->]]]]. eapply put_keeps; eauto.
+  - (* update *)
+    destruct (update_attribute_spec _ _ _ _ _ _ _ _ _ _ E) as [n [cur [En [Hres [_ [Hcur [Hk ->]]]]]]].
     destruct (key_eqb (akey r) (akey cur)) eqn:K.
-    + apply key_eqb_eq in K. split; [congruence|exact Hown].
+    + apply key_eqb_eq in K.
+      assert (r = cur) by (eapply NoDup_key_unique; eauto; apply Hc). subst cur.
+      assert (n = a_name r).
+      { destruct (Hnorm r Hr) as [raw Hraw]. eapply ank_hits_normalised; eauto.
+        unfold akey in Hk. injection Hk as _ Hk _. symmetry. exact Hk. }
+      subst n. split; [exact Hk|]. split; [exact En|]. eapply resolves_owner; eauto.
     + exfalso. apply key_eqb_neq in K. eapply put_keeps; [|exact Ha].
       cbn [del_rec set_store s_recs]. apply In_remove_key. auto.
-  - unfold update_expiration in E. match type of E with (if ?b then _ else _) = _ => destruct b end;
-      [|discriminate].
-    destruct (find_rec (a, n, v) (s_recs s)) as [cur|] eqn:F; inversion E; subst. clear E.
-    apply find_rec_some in F. destruct F as [Hcur Hk]. unfold absent in Ha. cbn [set_store s_recs] in Ha.
+  - (* update expiration *)
+    destruct (update_expiration_spec _ _ _ _ _ _ _ _ E) as [n [cur [_ [_ [_ [Hcur [_ ->]]]]]]].
+    unfold absent in Ha. cbn [set_store s_recs] in Ha.
     destruct (key_eqb (akey r) (akey cur)) eqn:K.
     + apply key_eqb_eq in K. apply (Ha (with_exp cur e)); [left; reflexivity|].
       change (akey (with_exp cur e)) with (akey cur). congruence.
     + apply key_eqb_neq in K. apply (Ha r); [|reflexivity]. right. apply In_remove_key. auto.
-  - destruct (delete_justified s c a n None sp s' r Hinv E Hr Ha) as [H1 [H2 _]]. auto.
-  - destruct (delete_justified s c a n (Some v) sp s' r Hinv E Hr Ha) as [H1 [H2 H3]]. auto.
-  - pose proof (purge_justified s c n s' r Hc E Hr Ha) as Hname. split; [exact Hname|].
-    destruct Hown as [Ho|[Ho _]]; [exact Ho|]. exfalso. apply (Hn r Hr). rewrite Hname. exact Ho.
-  - destruct (dt <? 0); inversion E; subst. clear E. unfold sweep in Ha.
-    destruct (sweep_fold (due (s_now (set_now s (s_now s + dt))) (s_queue (set_now s (s_now s + dt))))
-                (set_now s (s_now s + dt)) (inv_core_set_now _ _ Hc)) as [_ [_ [_ [_ [_ [I6 _]]]]]].
-    destruct (I6 r Hr) as [e [He Hl]].
-    + intros Hin. apply (Ha r Hin). reflexivity.
-    + exists e. split; [exact He|]. apply In_due in Hl. cbn [set_now s_now] in Hl. tauto.
+  - (* delete *)
+    apply delete_msg_spec in E. destruct (delete_k_removes _ _ _ _ _ _ _ Hc E) as [_ [_ I3]].
+    destruct (delete_matches a name None r) eqn:M.
+    + destruct (delete_matches_fields _ _ _ _ M) as [H1 [H2 _]].
+      destruct (delete_k_owner _ _ _ _ _ _ _ Hnamed E) as [Ho' _]. auto.
+    + exfalso. apply (present_not_absent r s'); [apply I3; auto|exact Ha].
+  - (* delete distinct *)
+    apply delete_msg_spec in E. destruct (delete_k_removes _ _ _ _ _ _ _ Hc E) as [_ [_ I3]].
+    destruct (delete_matches a name (Some v) r) eqn:M.
+    + destruct (delete_matches_fields _ _ _ _ M) as [H1 [H2 H3]].
+      destruct (delete_k_owner _ _ _ _ _ _ _ Hnamed E) as [Ho' _]. auto.
+    + exfalso. apply (present_not_absent r s'); [apply I3; auto|exact Ha].
+  - (* purge *)
+    destruct (purge_removes _ _ _ _ _ Hc E) as [_ [_ [_ I3]]].
+    assert (Ek : ank (a_name r) = ank name).
+    { destruct (string_dec (ank (a_name r)) (ank name)) as [Ek|Hne]; [exact Ek|].
+      exfalso. apply (present_not_absent r s'); [apply I3; auto|exact Ha]. }
+    split; [exact Ek|]. intros Hnormd.
+    assert (a_name r = name) by (destruct (Hnorm r Hr) as [raw Hraw]; eapply ank_inj_normalised; eauto).
+    subst name. split; [reflexivity|]. destruct (Hown Hnormd) as [Ho'|[Hnone _]]; [exact Ho'|].
+    destruct (Hnamed r Hr) as [nr [Hg _]]. congruence.
+  - (* account data *)
+    destruct (set_account_data_spec _ _ _ _ _ _ E) as [s1 [Hd Hs]].
+    assert (Hs1 : ~ In r (s_recs s1)).
+    { intros Hin. destruct Hs as [->|Hs]; [exact (present_not_absent _ _ Hin Ha)|].
+      destruct (set_attribute_spec _ _ _ _ _ _ _ _ _ Hs) as [n [_ [_ [_ ->]]]]. eapply put_keeps; eauto. }
+    destruct Hd as [->|Hd]; [contradiction|].
+    destruct (delete_k_removes _ _ _ _ _ _ _ Hc Hd) as [_ [_ I3]].
+    destruct (delete_matches a account_data_name None r) eqn:M.
+    + destruct (delete_matches_fields _ _ _ _ M) as [H1 [H2 _]].
+      destruct (delete_k_owner _ _ _ _ _ _ _ Hnamed Hd) as [Ho' _]. auto.
+    + exfalso. apply Hs1. apply I3. auto.
+  - destruct (N.eqb auth gov); [|discriminate]. injection E as <-. exact (present_not_absent _ _ Hr Ha).
+  - (* block *)
+    destruct (dt <? 0); [discriminate|]. injection E as <-.
+    destruct (sweep_facts cfg limit (set_now s (s_now s + dt))
+                (inv_core_same_store s (set_now s (s_now s + dt)) eq_refl eq_refl eq_refl Hc))
+      as [_ [_ [_ [I6 _]]]].
+    cbn [set_now s_recs s_now] in I6. apply I6; [exact Hr|].
+    intros Hin. exact (present_not_absent _ _ Hin Ha).
 Qed.
 
-Lemma expired_gone_step : forall s r e dt,
-  inv s -> In r (s_recs s) -> a_exp r = Some e -> 0 <= dt -> e < s_now s + dt ->
-  absent r (fst (step s (OBlock dt))).
+(** ** expiry *)
+Lemma inv_core_set_now : forall s t, inv_core s -> inv_core (set_now s t).
+Proof. intros s t H. apply (inv_core_same_store s); auto. Qed.
+
+Lemma expired_gone_step : forall cfg s r e dt limit,
+  inv_core s -> In r (s_recs s) -> a_exp r = Some e -> 0 <= dt -> e < s_now s + dt ->
+  (limit = 0 \/ ecount (s_now s + dt) s <= limit) ->
+  absent r (fst (step cfg s (OBlock dt limit))).
 Proof.
-  intros s r e dt [Hc Hn] Hr He Hdt Hlt. unfold step. cbn [exec].
-  destruct (dt <? 0) eqn:D; [lia|]. cbn [fst]. unfold sweep.
-  destruct (sweep_fold (due (s_now (set_now s (s_now s + dt))) (s_queue (set_now s (s_now s + dt))))
-              (set_now s (s_now s + dt)) (inv_core_set_now _ _ Hc)) as [_ [_ [_ [_ [_ [_ I7]]]]]].
-  unfold absent. apply (I7 r e Hr He). apply In_due. cbn [set_now s_now s_queue]. split; [|exact Hlt].
-  apply (ic_queue _ Hc). exact Hr. exact He.
+  intros cfg s r e dt limit Hc Hr He Hdt Hlt Hlim. unfold step. cbn [exec].
+  destruct (dt <? 0) eqn:D; [lia|]. cbn [fst]. unfold absent.
+  apply (sweep_expired_gone cfg limit (set_now s (s_now s + dt)) r (inv_core_set_now _ _ Hc)).
+  - exact Hlim.
+  - exact Hr.
+  - unfold expired. rewrite He. cbn [set_now s_now]. lia.
 Qed.
 
+(** what a cut-off sweep still achieves: at least [limit] expired attributes are deleted *)
+Lemma sweep_progress_step : forall cfg s dt limit,
+  inv_core s -> 0 <= dt ->
+  let s' := fst (step cfg s (OBlock dt limit)) in
+  (forall r, In r (s_recs s) -> expired (s_now s + dt) r = true -> absent r s') \/
+  (limit <> 0 /\ limit <= ecount (s_now s + dt) s - ecount (s_now s + dt) s').
+Proof.
+  intros cfg s dt limit Hc Hdt. cbn zeta. unfold step. cbn [exec].
+  destruct (dt <? 0) eqn:D; [lia|]. cbn [fst].
+  destruct (sweep_facts cfg limit (set_now s (s_now s + dt)) (inv_core_set_now _ _ Hc)) as [_ [_ [_ [_ H]]]].
+  exact H.
+Qed.
+
+(** several consecutive blocks: if the blocks are enough for the limit to get through everything
+    that has expired by the last block's time, an attribute expired at the first block is gone *)
+Definition blocks (limit : Z) (dts : list Z) : list op := map (fun dt => OBlock dt limit) dts.
+
+Lemma block_step_facts : forall cfg s dt limit,
+  inv_core s ->
+  let s1 := fst (step cfg s (OBlock dt limit)) in
+  inv_core s1 /\ (forall r, In r (s_recs s1) -> In r (s_recs s)).
+Proof.
+  intros cfg s dt limit Hc. cbn zeta. unfold step. cbn [exec]. destruct (dt <? 0); cbn [fst]; [auto|].
+  destruct (sweep_facts cfg limit (set_now s (s_now s + dt)) (inv_core_set_now _ _ Hc)) as [I1 [I2 _]]. auto.
+Qed.
+
+Lemma absent_block_persists : forall cfg limit dts s r,
+  inv_core s -> absent r s -> absent r (run_from cfg s (blocks limit dts)).
+Proof.
+  intros cfg limit dts. induction dts as [|dt t IH]; intros s r Hc Ha; cbn [blocks map run_from fold_left]; [auto|].
+  fold (blocks limit t). fold (run_from cfg (fst (step cfg s (OBlock dt limit))) (blocks limit t)).
+  destruct (block_step_facts cfg s dt limit Hc) as [I1 I2].
+  apply IH; [exact I1|]. intros r' Hr'. apply Ha. apply I2. exact Hr'.
+Qed.
+
+Lemma expired_gone_eventually : forall cfg limit dts s r e,
+  inv_core s -> 0 < limit -> Forall (fun dt => 0 <= dt) dts ->
+  In r (s_recs s) -> a_exp r = Some e ->
+  match dts with dt :: _ => e < s_now s + dt | [] => False end ->
+  ecount (s_now s + fold_right Z.add 0 dts) s <= limit * Z.of_nat (List.length dts) ->
+  absent r (run_from cfg s (blocks limit dts)).
+Proof.
+  intros cfg limit dts. induction dts as [|dt t IH]; intros s r e Hc Hl Hdts Hr He Hfirst Hcount; [contradiction|].
+  inversion Hdts as [|? ? Hdt Ht]; subst.
+  cbn [blocks map run_from fold_left]. fold (blocks limit t).
+  fold (run_from cfg (fst (step cfg s (OBlock dt limit))) (blocks limit t)).
+  set (T := s_now s + fold_right Z.add 0 (dt :: t)) in *.
+  assert (Hsum : 0 <= fold_right Z.add 0 t).
+  { clear - Ht. induction Ht as [|x l Hx Hl IHl]; cbn [fold_right]; lia. }
+  unfold step. cbn [exec]. destruct (dt <? 0) eqn:D; [lia|]. cbn [fst].
+  set (s0 := set_now s (s_now s + dt)).
+  assert (Hc0 : inv_core s0) by (apply inv_core_set_now; exact Hc).
+  assert (HT : s_now s0 <= T) by (subst T s0; cbn [set_now s_now fold_right]; lia).
+  destruct (sweep_facts_at cfg limit s0 T Hc0 HT) as [I1 [I2 [[_ [I3 _]] [_ I5]]]].
+  set (s1 := sweep cfg limit s0) in *.
+  assert (Hex0 : expired (s_now s0) r = true) by (unfold expired; rewrite He; subst s0; cbn [set_now s_now]; lia).
+  assert (HexT : expired T r = true) by (unfold expired; rewrite He; subst T; cbn [fold_right]; lia).
+  destruct I5 as [I5|[_ I5]].
+  - apply absent_block_persists; [exact I1|]. exact (I5 r Hr Hex0).
+  - assert (Hcount1 : ecount T s1 <= limit * Z.of_nat (List.length t)).
+    { change (ecount T s0) with (ecount T s) in I5. cbn [List.length] in Hcount. lia. }
+    destruct (in_dec attr_eq_dec r (s_recs s1)) as [Hin|Hnin].
+    + destruct t as [|dt' t'].
+      * exfalso. pose proof (ecount_pos T s1 r Hin HexT). cbn [List.length] in Hcount1. lia.
+      * apply (IH s1 r e I1 Hl Ht Hin He).
+        -- inversion Ht; subst. rewrite I3. subst s0. cbn [set_now s_now]. lia.
+        -- rewrite I3. subst s0. cbn [set_now s_now]. subst T. cbn [fold_right] in *.
+           replace (s_now s + dt + (dt' + fold_right Z.add 0 t')) with (s_now s + (dt + (dt' + fold_right Z.add 0 t'))) by lia.
+           exact Hcount1.
+    + apply absent_block_persists; [exact I1|]. intros r' Hr' Ek. apply Hnin.
+      assert (r' = r) by (apply (NoDup_key_unique (s_recs s0)); [apply Hc0|apply I2; exact Hr'|exact Hr|exact Ek]).
+      subst r'. exact Hr'.
+Qed.
+
+(** ** lookups *)
 Lemma lookup_lists_holder : forall s r universe,
-  inv s -> In r (s_recs s) -> In (a_acct r) universe ->
+  inv_core s -> In r (s_recs s) -> In (a_acct r) universe ->
   In (a_acct r) (accounts_by_attribute s (a_name r) universe).
 Proof.
-  intros s r u [Hc _] Hr Hu. unfold accounts_by_attribute. apply filter_In. split; [exact Hu|].
-  pose proof (count_pos_in r _ Hr). pose proof (ic_cnt _ Hc (a_name r) (a_acct r)). lia.
+  intros s r u Hc Hr Hu. unfold accounts_by_attribute. apply filter_In. split; [exact Hu|].
+  pose proof (count_pos_in r _ Hr). pose proof (ic_cnt _ Hc (ank (a_name r)) (a_acct r)). lia.
+Qed.
+
+(** the gRPC queries return exactly the attributes of the keeper store that have not expired,
+    for every spelling of the name that has the record's store key *)
+Lemma live_not_expired : forall t r, live t r = negb (expired t r).
+Proof. intros t r. unfold live, expired. destruct (a_exp r); reflexivity. Qed.
+
+Lemma queries_faithful : forall s r,
+  In r (s_recs s) -> live (s_now s) r = true ->
+  In r (q_attributes s (a_acct r)) /\
+  (forall name, ank name = ank (a_name r) -> In r (q_attribute s (a_acct r) name)) /\
+  (forall suf, has_suffix (a_name r) suf = true -> In r (q_scan s (a_acct r) suf)).
+Proof.
+  intros s r Hr Hl. unfold q_attributes, q_attribute, q_scan. repeat split; [|intros name E|intros suf E];
+    apply filter_In; (split; [exact Hr|]); rewrite N.eqb_refl, Hl; cbn [andb]; try reflexivity.
+  - rewrite E, String.eqb_refl. reflexivity.
+  - rewrite E. reflexivity.
+Qed.
+
+Lemma queries_sound : forall s a name suf r,
+  (In r (q_attributes s a) -> In r (s_recs s) /\ a_acct r = a /\ expired (s_now s) r = false) /\
+  (In r (q_attribute s a name) -> In r (s_recs s) /\ a_acct r = a /\ ank (a_name r) = ank name /\ expired (s_now s) r = false) /\
+  (In r (q_scan s a suf) -> In r (s_recs s) /\ a_acct r = a /\ has_suffix (a_name r) suf = true /\ expired (s_now s) r = false).
+Proof.
+  intros s a name suf r. unfold q_attributes, q_attribute, q_scan. rewrite !filter_In, !andb_true_iff, !live_not_expired, !negb_true_iff, N.eqb_eq, String.eqb_eq.
+  tauto.
 Qed.
 
 (** * The statements over all histories *)
-Lemma only_owner_writes_all : forall t0 accts ops o,
-  let s := run t0 accts ops in
-  snd (step s o) = true ->
-  match o with
-  | OAdd c _ n _ _ _ _ | OUpdate c _ n _ _ _ _ _ | OUpdateExp c _ n _ _ _
-  | ODelete c _ n _ | ODeleteDistinct c _ n _ _ | ODeleteName c n => s_owner s n = Some c
-  | OPurge c n => s_owner s n = Some c \/ (s_owner s n = None /\ fst (step s o) = s)
-  | _ => True
-  end.
-Proof. intros t0 accts ops o s H. apply (only_owner_step s o (run_inv t0 accts ops) H). Qed.
+Section All.
+  Variable cfg : config.
+  Variable U : list string.
+  Hypothesis Hcf : coll_free U.
+  Hypothesis Hgen : genesis_in cfg U.
 
-Lemma disappears_only_when_all : forall t0 accts ops o r,
-  let s := run t0 accts ops in
-  let s' := fst (step s o) in
-  In r (s_recs s) ->
-  (forall r', In r' (s_recs s') -> akey r' <> akey r) ->
-  match o with
-  | ODelete c a n _ => a_acct r = a /\ a_name r = n /\ s_owner s n = Some c
-  | ODeleteDistinct c a n v _ => a_acct r = a /\ a_name r = n /\ a_val r = v /\ s_owner s n = Some c
-  | OUpdate c a n ov _ _ _ _ => akey r = (a, n, ov) /\ s_owner s n = Some c
-  | ODeleteName c n | OPurge c n => a_name r = n /\ s_owner s n = Some c
-  | OBlock dt => exists e, a_exp r = Some e /\ e < s_now s + dt
-  | _ => False
-  end.
-Proof. intros t0 accts ops o r s s' Hr Ha. apply (disappears_step s o r (run_inv t0 accts ops) Hr Ha). Qed.
+  Lemma only_owner_writes_all : forall t0 ops o,
+    Forall (op_in cfg U) ops -> op_in cfg U o ->
+    let s := run cfg t0 ops in
+    snd (step cfg s o) = true -> writes_as_owner cfg s o.
+  Proof.
+    intros t0 ops o Hops Ho s H.
+    apply (only_owner_step cfg U s o Hcf Ho (run_inv0 cfg t0 ops) (run_inv1 cfg U t0 ops Hcf Hgen Hops) H).
+  Qed.
 
-Lemma lookup_never_omits_all : forall t0 accts ops,
-  let s := run t0 accts ops in
+  Lemma disappears_only_when_all : forall t0 ops o r,
+    Forall (op_in cfg U) ops -> op_in cfg U o ->
+    let s := run cfg t0 ops in
+    In r (s_recs s) -> absent r (fst (step cfg s o)) -> justified cfg s o r.
+  Proof.
+    intros t0 ops o r Hops Ho s Hr Ha.
+    apply (disappears_step cfg U s o r Hcf Ho (run_inv0 cfg t0 ops) (run_inv1 cfg U t0 ops Hcf Hgen Hops) Hr Ha).
+  Qed.
+
+  Lemma named_all : forall t0 ops,
+    Forall (op_in cfg U) ops ->
+    let s := run cfg t0 ops in
+    forall r, In r (s_recs s) -> exists c, owner_of s (a_name r) = Some c.
+  Proof.
+    intros t0 ops Hops s r Hr. destruct (run_inv1 cfg U t0 ops Hcf Hgen Hops) as [Hnamed _].
+    destruct (Hnamed r Hr) as [nr [Hg E]]. exists (r_addr nr). apply owner_of_exact; assumption.
+  Qed.
+End All.
+
+Lemma lookup_never_omits_all : forall cfg t0 ops,
+  let s := run cfg t0 ops in
   (forall n a, count_recs n a (s_recs s) <= s_cnt s n a) /\
   (forall r universe, In r (s_recs s) -> In (a_acct r) universe ->
                       In (a_acct r) (accounts_by_attribute s (a_name r) universe)).
 Proof.
-  intros t0 accts ops s. pose proof (run_inv t0 accts ops) as H. split.
-  - apply (ic_cnt _ (proj1 H)).
+  intros cfg t0 ops s. pose proof (i_core _ _ (run_inv0 cfg t0 ops)) as H. split.
+  - apply (ic_cnt _ H).
   - intros r u. apply lookup_lists_holder. exact H.
 Qed.
 
-Lemma expired_gone_after_sweep_all : forall t0 accts ops r e dt,
-  let s := run t0 accts ops in
+Lemma expired_gone_after_sweep_all : forall cfg t0 ops r e dt limit,
+  let s := run cfg t0 ops in
   In r (s_recs s) -> a_exp r = Some e -> 0 <= dt -> e < s_now s + dt ->
-  forall r', In r' (s_recs (fst (step s (OBlock dt)))) -> akey r' <> akey r.
+  (limit = 0 \/ ecount (s_now s + dt) s <= limit) ->
+  absent r (fst (step cfg s (OBlock dt limit))).
 Proof.
-  intros t0 accts ops r e dt s Hr He Hdt Hlt.
-  apply (expired_gone_step s r e dt (run_inv t0 accts ops) Hr He Hdt Hlt).
+  intros cfg t0 ops r e dt limit s. apply expired_gone_step. apply (run_inv0 cfg t0 ops).
 Qed.
 
-(** Structural facts used in the statement of C16: at most one record per key, every stored
-    expiration has its queue entry, and no attribute lives under an unbound name. *)
-Lemma well_formed_all : forall t0 accts ops,
-  let s := run t0 accts ops in
+Lemma expired_gone_eventually_all : forall cfg t0 ops limit dts r e,
+  let s := run cfg t0 ops in
+  0 < limit -> Forall (fun dt => 0 <= dt) dts ->
+  In r (s_recs s) -> a_exp r = Some e ->
+  match dts with dt :: _ => e < s_now s + dt | [] => False end ->
+  ecount (s_now s + fold_right Z.add 0 dts) s <= limit * Z.of_nat (List.length dts) ->
+  absent r (run cfg t0 (ops ++ blocks limit dts)).
+Proof.
+  intros cfg t0 ops limit dts r e s Hl Hd Hr He Hf Hc. unfold run, run_from. rewrite fold_left_app.
+  apply (expired_gone_eventually cfg limit dts s r e); auto. apply (run_inv0 cfg t0 ops).
+Qed.
+
+Lemma well_formed_all : forall cfg t0 ops,
+  let s := run cfg t0 ops in
   NoDup (map akey (s_recs s)) /\
   (forall r e, In r (s_recs s) -> a_exp r = Some e -> In (e, akey r) (s_queue s)) /\
-  (forall r, In r (s_recs s) -> s_owner s (a_name r) <> None).
+  NoDup (s_queue s) /\
+  (forall r, In r (s_recs s) -> norm cfg (a_name r) = Some (a_name r)).
 Proof.
-  intros t0 accts ops s. destruct (run_inv t0 accts ops) as [[H1 H2 H3] H4]. auto.
+  intros cfg t0 ops s. destruct (run_inv0 cfg t0 ops) as [[H1 H2 H3 H4] _ H5]. repeat split; auto.
+  intros r Hr. eapply normal_fixed; eauto.
+Qed.
+
+(** * Executable versions of the hypotheses (for concrete universes) *)
+Definition mem_str (x : string) (l : list string) : bool := existsb (String.eqb x) l.
+Definition ostr_eqb (x y : option string) : bool :=
+  match x, y with Some a, Some b => String.eqb a b | None, None => true | _, _ => false end.
+Definition coll_freeb (U : list string) : bool :=
+  forallb (fun n1 => forallb (fun n2 =>
+    negb (ostr_eqb (name_key_preimage n1) (name_key_preimage n2)) || String.eqb n1 n2) U) U.
+Definition norm_in (cfg : config) (U : list string) (name : string) : bool :=
+  match norm cfg name with Some n => mem_str n U | None => true end.
+Definition op_inb (cfg : config) (U : list string) (o : op) : bool :=
+  match o with
+  | OBind parent _ child _ _ => norm_in cfg U (child ++ "." ++ parent)%string
+  | OModifyName _ name _ _ | ODeleteName name _ | OAdd _ _ name _ _ _ | OUpdate _ _ name _ _ _ _
+  | OUpdateExp _ _ name _ _ | ODelete _ _ name | ODeleteDistinct _ _ name _ | OPurge _ name =>
+      norm_in cfg U name
+  | OSetAccountData _ _ _ => mem_str account_data_name U
+  | _ => true
+  end.
+Definition genesis_inb (cfg : config) (U : list string) : bool :=
+  forallb (fun kv => mem_str (r_name (snd kv)) U) (st_recs (genesis_names cfg)).
+
+Lemma mem_str_In : forall x l, mem_str x l = true <-> In x l.
+Proof.
+  intros x l. unfold mem_str. rewrite existsb_exists. split.
+  - intros [y [Hy E]]. apply String.eqb_eq in E. subst. exact Hy.
+  - intros H. exists x. split; [exact H|apply String.eqb_refl].
+Qed.
+
+Lemma coll_freeb_sound : forall U, coll_freeb U = true -> coll_free U.
+Proof.
+  intros U H n1 n2 H1 H2 E. unfold coll_freeb in H. rewrite forallb_forall in H.
+  specialize (H n1 H1). rewrite forallb_forall in H. specialize (H n2 H2).
+  rewrite E in H. apply orb_true_iff in H. destruct H as [H|H]; [|apply String.eqb_eq; exact H].
+  exfalso. destruct (name_key_preimage n2); cbn in H; [rewrite String.eqb_refl in H|]; discriminate.
+Qed.
+
+Lemma norm_in_sound : forall cfg U name, norm_in cfg U name = true -> forall n, norm cfg name = Some n -> In n U.
+Proof. intros cfg U name H n E. unfold norm_in in H. rewrite E in H. apply mem_str_In. exact H. Qed.
+
+Lemma op_inb_sound : forall cfg U o, op_inb cfg U o = true -> op_in cfg U o.
+Proof.
+  intros cfg U o H. destruct o; cbn [op_inb op_in] in *; try exact I; try (apply norm_in_sound; exact H).
+  apply mem_str_In. exact H.
+Qed.
+
+Lemma ops_inb_sound : forall cfg U ops, forallb (op_inb cfg U) ops = true -> Forall (op_in cfg U) ops.
+Proof.
+  intros cfg U ops H. apply Forall_forall. intros o Ho. apply op_inb_sound.
+  rewrite forallb_forall in H. apply H. exact Ho.
+Qed.
+
+Lemma genesis_inb_sound : forall cfg U, genesis_inb cfg U = true -> genesis_in cfg U.
+Proof.
+  intros cfg U H k nr Hk. unfold genesis_inb in H. rewrite forallb_forall in H.
+  apply mem_str_In. apply (H (k, nr)).
+  unfold rget in Hk. apply (aget_some_in string record String.eqb String.eqb_spec). exact Hk.
 Qed.
